@@ -4,7 +4,7 @@
    rejected ([reject_*]); and the oddities / defects of the compiler, as refutations by computation. *)
 From Coq Require Import ZArith List Bool Lia NArith String Ascii DecimalString DecimalZ.
 From Coq.Strings Require Import Byte.
-From TS Require Import Bytes Codec Ops Names Asm Tables TablesCheck BytesLemmas CodecProofs AsmProofs Assembler.
+From TS Require Import Bytes Codec Ops Names Asm Tables TablesCheck BytesLemmas CodecProofs AsmProofs Tokenizer Assembler.
 Import ListNotations.
 Open Scope string_scope.
 Open Scope list_scope.
@@ -245,8 +245,11 @@ Qed.
 
 (* ---------- symbols that are neither structure nor outside the model ---------- *)
 
+(* symbols that are outside the model, or that parse_comptime takes out of the symbol list *)
+Definition bad_symbol (s : string) : bool := mem s ["~"; "~!"; "!="] || unmodelled_symbol s.
+
 Definition struct_syms : list string := ["{"; "}"; "("; ")"; "END_DEF"].
-Definition leafb (s : string) : bool := negb (unmodelled_symbol s) && negb (mem s struct_syms).
+Definition leafb (s : string) : bool := negb (bad_symbol s) && negb (mem s struct_syms).
 Definition ascii_c (c : ascii) : bool := plain_c c.
 
 Lemma sall_imp : forall (f g : ascii -> bool), (forall c, f c = true -> g c = true) ->
@@ -304,19 +307,19 @@ Definition sS := pfx "s" "S".
 
 Lemma leaf_dx : forall c r, dD c \/ xX c -> is_ascii_s r = true -> leafb (String c r) = true.
 Proof.
-  intros c r [[->| ->]|[->| ->]] H; unfold leafb, unmodelled_symbol; cbn [is_ascii_s sall] in *;
+  intros c r [[->| ->]|[->| ->]] H; unfold leafb, bad_symbol, unmodelled_symbol; cbn [is_ascii_s sall] in *;
     fold (is_ascii_s r); rewrite H; reflexivity.
 Qed.
 Lemma leaf_s : forall c r, sS c -> leafb (String c r) = true.
 Proof.
-  intros c r [->| ->]; unfold leafb, unmodelled_symbol; cbn [mem existsb String.eqb Ascii.eqb Bool.eqb orb];
+  intros c r [->| ->]; unfold leafb, bad_symbol, unmodelled_symbol; cbn [mem existsb String.eqb Ascii.eqb Bool.eqb orb];
     cbn [lower_c is_upper asc_between]; cbn; rewrite andb_false_r; reflexivity.
 Qed.
 Lemma leaf_digits : forall r, digs r -> leafb r = true.
 Proof.
   intros [|c r] [N D]; [discriminate N|]. pose proof (digs_ascii _ D) as A.
   cbn [sall] in D. apply andb_prop in D as [Hc _].
-  unfold leafb, unmodelled_symbol. rewrite A. cbn [negb andb orb].
+  unfold leafb, bad_symbol, unmodelled_symbol. rewrite A. cbn [negb andb orb].
   destruct c as [[] [] [] [] [] [] [] []]; try discriminate Hc; reflexivity.
 Qed.
 
@@ -569,18 +572,20 @@ End Values.
 (* ====================================================================================== *)
 
 (* where a statement stands: at top level (or in blocks at top level), directly in the body of a
-   DEF (parse_def prefixes OP_ to alias keys there: oddity O2), or in a block nested in a DEF body *)
+   DEF (parse_def resolves the aliases itself there and refuses a DEF), or in a block nested in a
+   DEF body *)
 Inductive ctx := Top | DefDirect | DefNested.
 Definition sub_ctx (c : ctx) : ctx := match c with Top => Top | _ => DefNested end.
 Definition defpre (c : ctx) (s : string) : string :=
-  match c with DefDirect => if is_alias s then ("OP_" ++ s)%string else s | _ => s end.
+  match c with DefDirect => match alias_of s with Some t => t | None => s end | _ => s end.
+Lemma is_alias_none : forall s, is_alias s = false -> alias_of s = None.
+Proof. intros s H. unfold is_alias in H. destruct (alias_of s); [discriminate H|reflexivity]. Qed.
 
 (* the names of an opcode: its OP_ name, and every key of the generated alias table that maps to it
-   (the name without OP_, the short aliases with and without OP_); directly in a DEF body the
-   OP_-prefixed aliases are not accepted *)
+   (the name without OP_, the short aliases with and without OP_), in every context (before the fix
+   of finding A4 the OP_-prefixed aliases were not accepted directly in a DEF body) *)
 Definition spell_name (c : ctx) (o : opcode) (s : string) : Prop :=
-  s = opcode_name o \/
-  (In (s, opcode_name o) gen_aliases /\ (c = DefDirect -> is_prefix "OP_" s = false)).
+  s = opcode_name o \/ In (s, opcode_name o) gen_aliases.
 
 (* symbols that end or separate blocks, and "{" *)
 Definition term_syms : list string :=
@@ -592,8 +597,8 @@ Definition headb (s : string) : bool :=
 
 Definition alias_chk (p : string * string) : bool :=
   let '(a, t) := p in
-  String.eqb (canon a) t && is_alias a && headb a && negb (is_comment ("OP_" ++ a))
-  && (is_prefix "OP_" a || String.eqb (canon ("OP_" ++ a)) t).
+  String.eqb (canon a) t && headb a && negb (is_comment t) && String.eqb (canon t) t
+  && match alias_of a with Some t' => String.eqb t' t | None => false end.
 Lemma alias_chk_all : forallb alias_chk gen_aliases = true.
 Proof. vm_compute. reflexivity. Qed.
 
@@ -607,20 +612,20 @@ Proof. destruct o; vm_compute; reflexivity. Qed.
 Lemma spell_name_spec : forall c o s, spell_name c o s ->
   canon (defpre c s) = opcode_name o /\ is_comment (defpre c s) = false /\ headb s = true.
 Proof.
-  intros c o s [->|[I P]].
+  intros c o s [->|I].
   - pose proof (opname_chk_all o) as K. unfold opname_chk in K.
     apply andb_prop in K as [K _]. apply andb_prop in K as [K H]. apply andb_prop in K as [K1 K2].
-    apply String.eqb_eq in K1. apply negb_true_iff in K2.
+    apply String.eqb_eq in K1. apply negb_true_iff in K2. apply is_alias_none in K2.
     assert (D : defpre c (opcode_name o) = opcode_name o) by (destruct c; cbn [defpre]; rewrite ?K2; reflexivity).
     rewrite D. split; [exact K1|]. split; [|exact H].
     unfold headb in H. apply andb_prop in H as [H _]. apply andb_prop in H as [H _]. apply negb_true_iff in H. exact H.
   - pose proof (proj1 (forallb_forall _ _) alias_chk_all _ I) as K. unfold alias_chk in K.
     apply andb_prop in K as [K K5]. apply andb_prop in K as [K K4]. apply andb_prop in K as [K K3].
-    apply andb_prop in K as [K1 K2]. apply String.eqb_eq in K1. apply negb_true_iff in K4.
+    apply andb_prop in K as [K1 K2]. apply String.eqb_eq in K1, K4. apply negb_true_iff in K3.
+    destruct (alias_of s) as [t'|] eqn:Q; [|discriminate K5]. apply String.eqb_eq in K5. subst t'.
     assert (Hc : is_comment s = false).
-    { unfold headb in K3. apply andb_prop in K3 as [K3 _]. apply andb_prop in K3 as [K3 _]. apply negb_true_iff in K3. exact K3. }
-    split; [|split; [|exact K3]]; destruct c; cbn [defpre]; rewrite ?K2; try assumption.
-    rewrite (P eq_refl) in K5. cbn [orb] in K5. apply String.eqb_eq in K5. exact K5.
+    { unfold headb in K2. apply andb_prop in K2 as [K2' _]. apply andb_prop in K2' as [K2' _]. apply negb_true_iff in K2'. exact K2'. }
+    split; [|split; [|exact K2]]; destruct c; cbn [defpre]; rewrite ?Q; assumption.
 Qed.
 
 Lemma opcode_index_name : forall o, opcode_index (opcode_name o) = Some (Byte.to_nat (opcode_byte o)).
@@ -666,11 +671,13 @@ Section PnNames.
   Variable fl2 : Z -> Z.
   Variable asm : list string -> res bytes.
   Variable pn : string -> list string -> res (nat * bytes).
+  Variable macs : macros.
+  Variable compile : string -> res bytes.
 
   Lemma pn_plain : forall cur tail k o,
     is_comment cur = false -> plainb (canon cur) = true ->
     opcode_index (canon cur) = Some k -> opcode_of_nat k = Some o ->
-    parse_next fl2 asm pn cur tail =
+    parse_next fl2 asm pn macs compile cur tail =
     rbind (get_args fl2 o (tl tail)) (fun '(adv, args) => Ok (adv, z2b (Z.of_nat k) :: args)).
   Proof.
     intros cur tail k o Hc Hp Hi Ho. unfold parse_next. rewrite Hc, Hi, Ho.
@@ -681,7 +688,7 @@ Section PnNames.
   Qed.
 
   Lemma pn_opcode : forall c cur tail o, spell_name c o cur -> simple_op o = true ->
-    parse_next fl2 asm pn (defpre c cur) tail =
+    parse_next fl2 asm pn macs compile (defpre c cur) tail =
     rbind (get_args fl2 o (tl tail)) (fun '(adv, args) => Ok (adv, opcode_byte o :: args)).
   Proof.
     intros c cur tail o S P. destruct (spell_name_spec c o cur S) as (E & Hc & _).
@@ -693,14 +700,14 @@ Section PnNames.
   Qed.
 
   Lemma pn_nop : forall c code tail, (n_opcodes <= code < 256)%nat ->
-    parse_next fl2 asm pn (defpre c (nop_name code)) tail =
+    parse_next fl2 asm pn macs compile (defpre c (nop_name code)) tail =
     rbind (args_push0 fl2 (tl tail)) (fun '(adv, args) => Ok (adv, z2b (Z.of_nat code) :: args)).
   Proof.
     intros c code tail R. pose proof (nop_chk_at code R) as K. unfold nop_chk in K.
     apply andb_prop in K as [K K6]. apply andb_prop in K as [K K5]. apply andb_prop in K as [K K4].
     apply andb_prop in K as [K K3]. apply andb_prop in K as [K1 K2].
     apply String.eqb_eq in K2. apply negb_true_iff in K3.
-    assert (D : defpre c (nop_name code) = nop_name code) by (destruct c; cbn [defpre]; rewrite ?K3; reflexivity).
+    assert (D : defpre c (nop_name code) = nop_name code) by (destruct c; cbn [defpre]; rewrite ?(is_alias_none _ K3); reflexivity).
     rewrite D. unfold headb in K4. apply andb_prop in K4 as [K4 _]. apply andb_prop in K4 as [K4 _].
     apply negb_true_iff in K4. unfold parse_next. rewrite K4, K2.
     destruct (opcode_index (nop_name code)); [discriminate K5|].
@@ -873,7 +880,7 @@ Qed.
 (* d = true: END_DEF must not occur *)
 Definition good (d : bool) (ss : list string) : Prop :=
   (forall k, scan "{" "}" ss k = Some k) /\ (forall k, scan "(" ")" ss k = Some k) /\
-  existsb unmodelled_symbol ss = false /\ (d = true -> mem "END_DEF" ss = false).
+  existsb bad_symbol ss = false /\ (d = true -> mem "END_DEF" ss = false).
 
 Lemma mem_app : forall s a b, mem s (a ++ b) = mem s a || mem s b.
 Proof. intros. unfold mem. apply existsb_app. Qed.
@@ -882,7 +889,7 @@ Lemma good_nil : forall d, good d [].
 Proof. intros d. repeat split; reflexivity. Qed.
 
 Lemma leafb_spec : forall s, leafb s = true ->
-  unmodelled_symbol s = false /\ String.eqb s "{" = false /\ String.eqb s "}" = false /\
+  bad_symbol s = false /\ String.eqb s "{" = false /\ String.eqb s "}" = false /\
   String.eqb s "(" = false /\ String.eqb s ")" = false /\ String.eqb "END_DEF" s = false.
 Proof.
   intros s H. unfold leafb in H. apply andb_prop in H as [H1 H2].
@@ -951,9 +958,9 @@ Proof.
   intros c. destruct c as [[] [] [] [] [] [] [] []]; intros H; try discriminate H; reflexivity.
 Qed.
 Lemma leaf_at : forall k, is_ascii_s k = true -> leafb (String "@" k) = true.
-Proof. intros k H. unfold leafb, unmodelled_symbol. cbn [is_ascii_s sall]. fold (is_ascii_s k). rewrite H. reflexivity. Qed.
+Proof. intros k H. unfold leafb, bad_symbol, unmodelled_symbol. cbn [is_ascii_s sall]. fold (is_ascii_s k). rewrite H. reflexivity. Qed.
 Lemma leaf_at_hash : forall k, is_ascii_s k = true -> leafb (String "@" (String "#" k)) = true.
-Proof. intros k H. unfold leafb, unmodelled_symbol. cbn [is_ascii_s sall]. fold (is_ascii_s k). rewrite H. reflexivity. Qed.
+Proof. intros k H. unfold leafb, bad_symbol, unmodelled_symbol. cbn [is_ascii_s sall]. fold (is_ascii_s k). rewrite H. reflexivity. Qed.
 Lemma mem_In : forall s l, mem s l = true -> In s l.
 Proof.
   intros s l H. unfold mem in H. apply existsb_exists in H as (x & I & E). apply String.eqb_eq in E. subst. exact I.
@@ -961,7 +968,7 @@ Qed.
 Lemma leaf_alnum : forall k, isalnum k = true -> leafb k = true.
 Proof.
   intros k H. pose proof (isalnum_ascii k H) as A.
-  unfold leafb, unmodelled_symbol. rewrite A. cbn [negb andb]. rewrite orb_false_r.
+  unfold leafb, bad_symbol, unmodelled_symbol. rewrite A. cbn [negb andb]. rewrite orb_false_r.
   destruct (mem k ["~"; "~!"; "!="]) eqn:E1.
   { apply mem_In in E1. cbn [In] in E1. destruct E1 as [<-|[<-|[<-|[]]]]; discriminate H. }
   destruct (mem k struct_syms) eqn:E2; [|reflexivity].
@@ -1606,7 +1613,7 @@ Qed.
 Lemma plain_head_ok : forall c n, headb n = true -> is_alias n = false ->
   String.eqb n "OP_DEF" = false -> head_ok c n.
 Proof.
-  intros c n H A D. split; [exact H|]. intros ->. cbn [defpre]. rewrite A.
+  intros c n H A D. split; [exact H|]. intros ->. cbn [defpre]. rewrite (is_alias_none n A).
   destruct (headb_spec n H) as (Hc & M & _). split; [exact Hc|]. split; [exact D|].
   unfold mem. cbn [existsb]. nt M. reflexivity.
 Qed.
@@ -1625,13 +1632,49 @@ Proof.
   destruct c as [[] [] [] [] [] [] [] []]; try discriminate Hc; reflexivity.
 Qed.
 
+Lemma bad_symbol_spec : forall s, bad_symbol s = false ->
+  String.eqb s "!=" = false /\ String.eqb s "~" = false /\ String.eqb s "~!" = false /\
+  unmodelled_symbol s = false.
+Proof.
+  intros s H. unfold bad_symbol in H. apply orb_false_elim in H as [H U].
+  unfold mem in H. cbn [existsb] in H. repeat (apply orb_false_elim in H as [? H]). auto.
+Qed.
+
+(* parse_comptime is the identity on symbols without "~", "~!", "!=" *)
+Lemma comptime_id : forall asm syms, existsb bad_symbol syms = false ->
+  forall n m, (List.length syms <= n)%nat -> comptime asm n m syms = Ok (m, syms).
+Proof.
+  intros asm. induction syms as [|s syms IH]; intros B n m L; [destruct n; reflexivity|].
+  cbn [existsb] in B. apply orb_false_elim in B as [B1 B2].
+  destruct (bad_symbol_spec s B1) as (E1 & E2 & E3 & _).
+  cbn [List.length] in L. destruct n as [|n']; [lia|].
+  cbn [comptime]. rewrite E1, E2, E3. cbn [orb]. rewrite (IH B2 n' m) by lia. reflexivity.
+Qed.
+
+Lemma bad_unmodelled : forall syms, existsb bad_symbol syms = false -> existsb unmodelled_symbol syms = false.
+Proof.
+  induction syms as [|s syms IH]; intros B; [reflexivity|]. cbn [existsb] in *.
+  apply orb_false_elim in B as [B1 B2]. destruct (bad_symbol_spec s B1) as (_ & _ & _ & U).
+  rewrite U, IH by exact B2. reflexivity.
+Qed.
+
 Section Main.
   Variable fl2 : Z -> Z.
-  Notation PN := (pn_fuel fl2).
-  Definition ASM (f : nat) (syms : list string) : res bytes := asm_loop (PN f) (List.length syms) syms.
+  Variable mtab : macros.
+  Notation PN := (fun f => pn_at fl2 f mtab).
+  Definition ASM (f : nat) (syms : list string) : res bytes := code_of (asm_fuel fl2 f mtab syms).
+  Definition COMPILE (f : nat) (text : string) : res bytes :=
+    rbind (get_symbols text) (fun syms => code_of (asm_fuel fl2 f [] syms)).
 
-  Lemma PN_S : forall f, PN (S f) = parse_next fl2 (ASM f) (PN f).
+  Lemma PN_S : forall f, PN (S f) = parse_next fl2 (ASM f) (PN f) mtab (COMPILE f).
   Proof. reflexivity. Qed.
+
+  Lemma ASM_free : forall f sc, existsb bad_symbol sc = false ->
+    ASM (S f) sc = asm_loop (PN f) (List.length sc) sc.
+  Proof.
+    intros f sc B. unfold ASM, code_of. cbn [asm_fuel]. rewrite comptime_id by (try exact B; apply le_n).
+    cbn [rbind]. destruct (asm_loop _ _ sc); reflexivity.
+  Qed.
 
   Definition P_stmt (c : ctx) (nx : option string) (is : list instr) (ss : list string) : Prop :=
     wf_prog is = true -> forall f r, (List.length ss <= f)%nat -> hd_error r = nx ->
@@ -1663,7 +1706,7 @@ Section Main.
   Proof.
     intros c nx o n N S. start n (@nil string).
     split. { apply (name_head_ok c o); [exact N|]. intros _ ->. discriminate S. }
-    rewrite PN_S, (pn_opcode fl2 _ _ c n _ o N) by simple_shape S.
+    rewrite PN_S, (pn_opcode fl2 _ _ _ _ c n _ o N) by simple_shape S.
     unfold get_args. rewrite S. cbn [rbind]. rewrite encode_one. reflexivity.
   Qed.
 
@@ -1675,7 +1718,7 @@ Section Main.
     assert (SO : simple_op o = true).
     { destruct (simple_op o) eqn:Q; [reflexivity|].
       destruct (shape_simple o Q) as [Q1|[Q1|Q1]]; rewrite Q1 in S; discriminate S. }
-    rewrite PN_S, (pn_opcode fl2 _ _ c n _ o N SO).
+    rewrite PN_S, (pn_opcode fl2 _ _ _ _ c n _ o N SO).
     cbn [app tl]. unfold get_args.
     destruct (shape_of o); try discriminate S; unfold args_push0; rewrite (sp_byte_ok fl2 b v V);
       cbn [rbind]; rewrite encode_one; reflexivity.
@@ -1695,7 +1738,7 @@ Section Main.
       repeat (apply andb_prop in K1 as [K1 ?]).
       match goal with H : negb (String.eqb _ "OP_DEF") = true |- _ => apply negb_true_iff in H; exact H end. }
     split; [apply plain_head_ok; assumption|].
-    rewrite PN_S, (pn_nop fl2 _ _ c code _ R). cbn [app tl]. unfold args_push0.
+    rewrite PN_S, (pn_nop fl2 _ _ _ _ c code _ R). cbn [app tl]. unfold args_push0.
     rewrite (sp_byte_ok fl2 cb v V). cbn [rbind]. rewrite encode_one. reflexivity.
   Qed.
 
@@ -1706,7 +1749,7 @@ Section Main.
     split. { apply (name_head_ok c o); [exact N|]. intros _ ->. destruct S as [S|S]; discriminate S. }
     assert (SO : simple_op o = true) by (apply simple_by_shape; destruct S as [S|S]; rewrite S; exact I).
     cbn [wf_prog forallb wf] in W. rewrite andb_true_r in W. apply andb_prop in W as [_ W].
-    rewrite PN_S, (pn_opcode fl2 _ _ c n _ o N SO). cbn [app tl]. unfold get_args.
+    rewrite PN_S, (pn_opcode fl2 _ _ _ _ c n _ o N SO). cbn [app tl]. unfold get_args.
     destruct S as [S|S]; rewrite S; unfold args_push1; cbn [pick_val rbind];
       rewrite (sp_var1_ok fl2 v s V); cbn [rbind]; unfold len1_r; rewrite W; cbn [rbind check_push_size];
       rewrite encode_one; reflexivity.
@@ -1718,7 +1761,7 @@ Section Main.
     intros c nx n a v s N A V O. start n [a; s].
     split. { apply (name_head_ok c O_PUSH1); [exact N|]. intros _; discriminate. }
     cbn [wf_prog forallb wf] in W. rewrite andb_true_r in W. apply andb_prop in W as [_ W].
-    rewrite PN_S, (pn_opcode fl2 _ _ c n _ O_PUSH1 N eq_refl). cbn [app tl]. unfold get_args. cbn [shape_of].
+    rewrite PN_S, (pn_opcode fl2 _ _ _ _ c n _ O_PUSH1 N eq_refl). cbn [app tl]. unfold get_args. cbn [shape_of].
     unfold args_push1. cbn [pick_val]. rewrite O. cbn [rbind].
     rewrite (sp_var1_ok fl2 v s V); cbn [rbind]; unfold len1_r; rewrite W; cbn [rbind].
     rewrite (sp_size_ok v a A); cbn [rbind]. rewrite encode_one. reflexivity.
@@ -1731,7 +1774,7 @@ Section Main.
     split. { apply (name_head_ok c O_PUSH1); [exact N|]. intros _; discriminate. }
     destruct r as [|t' r']; [discriminate Hr|]. cbn [hd_error] in Hr. injection Hr as ->.
     cbn [wf_prog forallb wf] in W. rewrite andb_true_r in W. apply andb_prop in W as [_ W].
-    rewrite PN_S, (pn_opcode fl2 _ _ c n _ O_PUSH1 N eq_refl). cbn [app tl]. unfold get_args. cbn [shape_of].
+    rewrite PN_S, (pn_opcode fl2 _ _ _ _ c n _ O_PUSH1 N eq_refl). cbn [app tl]. unfold get_args. cbn [shape_of].
     unfold args_push1. cbn [pick_val]. rewrite O. cbn [rbind].
     rewrite (sp_var1_ok fl2 v s V); cbn [rbind]; unfold len1_r; rewrite W; cbn [rbind check_push_size].
     rewrite encode_one. reflexivity.
@@ -1743,7 +1786,7 @@ Section Main.
     intros c nx n a v s N A V O. start n [a; s].
     split. { apply (name_head_ok c O_PUSH2); [exact N|]. intros _; discriminate. }
     cbn [wf_prog forallb wf] in W. rewrite andb_true_r in W.
-    rewrite PN_S, (pn_opcode fl2 _ _ c n _ O_PUSH2 N eq_refl). cbn [app tl]. unfold get_args. cbn [shape_of].
+    rewrite PN_S, (pn_opcode fl2 _ _ _ _ c n _ O_PUSH2 N eq_refl). cbn [app tl]. unfold get_args. cbn [shape_of].
     unfold args_push2. cbn [pick_val]. rewrite O. cbn [rbind].
     rewrite (sp_push2_ok fl2 v s V); cbn [rbind]; unfold len2_r; rewrite W; cbn [rbind].
     rewrite (sp_size_ok v a A); cbn [rbind]. rewrite encode_one. reflexivity.
@@ -1756,7 +1799,7 @@ Section Main.
     split. { apply (name_head_ok c O_PUSH2); [exact N|]. intros _; discriminate. }
     destruct r as [|t' r']; [discriminate Hr|]. cbn [hd_error] in Hr. injection Hr as ->.
     cbn [wf_prog forallb wf] in W. rewrite andb_true_r in W.
-    rewrite PN_S, (pn_opcode fl2 _ _ c n _ O_PUSH2 N eq_refl). cbn [app tl]. unfold get_args. cbn [shape_of].
+    rewrite PN_S, (pn_opcode fl2 _ _ _ _ c n _ O_PUSH2 N eq_refl). cbn [app tl]. unfold get_args. cbn [shape_of].
     unfold args_push2. cbn [pick_val]. rewrite O. cbn [rbind].
     rewrite (sp_push2_ok fl2 v s V); cbn [rbind]; unfold len2_r; rewrite W; cbn [rbind check_push_size].
     rewrite encode_one. reflexivity.
@@ -1768,7 +1811,7 @@ Section Main.
     intros c nx n k cb s1 s2 N K Cn. start n [s1; s2].
     split. { apply (name_head_ok c O_WRITE_CACHE); [exact N|]. intros _; discriminate. }
     cbn [wf_prog forallb wf] in W. rewrite andb_true_r in W.
-    rewrite PN_S, (pn_opcode fl2 _ _ c n _ O_WRITE_CACHE N eq_refl). cbn [app tl]. unfold get_args. cbn [shape_of].
+    rewrite PN_S, (pn_opcode fl2 _ _ _ _ c n _ O_WRITE_CACHE N eq_refl). cbn [app tl]. unfold get_args. cbn [shape_of].
     unfold args_write_cache. rewrite (sp_key_ok k s1 K), (sp_count_ok cb s2 Cn). cbn [rbind].
     rewrite W, (proj2 (Z.ltb_lt _ _) (b2z_lt cb)). cbn [andb rbind]. rewrite z2b_b2z, encode_one. reflexivity.
   Qed.
@@ -1782,7 +1825,7 @@ Section Main.
       apply Z.eqb_eq in W; unfold blen in W;
       (split; [apply (name_head_ok c o); [exact N|]; intros _ ->; discriminate S|]);
       (assert (SO : simple_op o = true) by (apply simple_by_shape; rewrite S; exact I));
-      rewrite PN_S, (pn_opcode fl2 _ _ c n _ o N SO); cbn [app tl]; unfold get_args; rewrite S, encode_one.
+      rewrite PN_S, (pn_opcode fl2 _ _ _ _ c n _ o N SO); cbn [app tl]; unfold get_args; rewrite S, encode_one.
     - unfold args_div_float, split_val. cbn [rbind].
       replace (String.length r0) with 8%nat by lia.
       destruct X as [->| ->]; cbn; rewrite (sp_hex_unhex _ _ H); reflexivity.
@@ -1796,7 +1839,7 @@ Section Main.
   Proof.
     intros c nx n a b sa sb N A B. start n [sa; sb].
     split. { apply (name_head_ok c O_SWAP); [exact N|]. intros _; discriminate. }
-    rewrite PN_S, (pn_opcode fl2 _ _ c n _ O_SWAP N eq_refl). cbn [app tl]. unfold get_args. cbn [shape_of].
+    rewrite PN_S, (pn_opcode fl2 _ _ _ _ c n _ O_SWAP N eq_refl). cbn [app tl]. unfold get_args. cbn [shape_of].
     unfold args_swap. rewrite (sp_index_ok a sa A), (sp_index_ok b sb B). cbn [rbind]. rewrite encode_one. reflexivity.
   Qed.
 
@@ -1808,7 +1851,7 @@ Section Main.
     destruct (shape_of o) eqn:S; try discriminate W.
     split. { apply (name_head_ok c o); [exact N|]. intros _ ->. discriminate S. }
     assert (SO : simple_op o = true) by (apply simple_by_shape; rewrite S; exact I).
-    rewrite PN_S, (pn_opcode fl2 _ _ c n _ o N SO). cbn [app tl]. unfold get_args. rewrite S.
+    rewrite PN_S, (pn_opcode fl2 _ _ _ _ c n _ o N SO). cbn [app tl]. unfold get_args. rewrite S.
     unfold args_multisig. rewrite (sp_index_ok _ _ A), (sp_index_ok _ _ B), (sp_index_ok _ _ K). cbn [rbind].
     rewrite encode_one. reflexivity.
   Qed.
@@ -1819,7 +1862,7 @@ Section Main.
     intros c nx n v s i N V P. start n [s].
     split. { destruct N as [->| ->]; apply plain_head_ok; reflexivity. }
     rewrite PN_S.
-    assert (E : parse_next fl2 (ASM f') (PN f') (defpre c n) ([n; s] ++ r) = instr_push fl2 (tl ([n; s] ++ r))).
+    assert (E : parse_next fl2 (ASM f') (PN f') mtab (COMPILE f') (defpre c n) ([n; s] ++ r) = instr_push fl2 (tl ([n; s] ++ r))).
     { destruct N as [->| ->]; destruct c; reflexivity. }
     rewrite E. cbn [app tl]. unfold instr_push. rewrite (sp_pushv_ok fl2 v s V). cbn [rbind]. rewrite P.
     cbn [of_opt rbind]. rewrite encode_one. reflexivity.
@@ -1840,7 +1883,7 @@ Section Main.
     split. { apply plain_head_ok; reflexivity. }
     cbn [wf_prog forallb wf] in W. rewrite andb_true_r in W.
     rewrite PN_S.
-    assert (E : forall tail, parse_next fl2 (ASM f') (PN f') (defpre c "@=") tail = set_variable tail).
+    assert (E : forall tail, parse_next fl2 (ASM f') (PN f') mtab (COMPILE f') (defpre c "@=") tail = set_variable tail).
     { intros tail. destruct c; reflexivity. }
     rewrite E. cbn [app]. unfold set_variable. rewrite (isalnum_ascii k K), K. cbn [negb].
     pose proof (sp_num_digs _ _ Cn) as G. destruct (sp_num_spec _ _ Cn) as (_ & _ & V).
@@ -1853,7 +1896,7 @@ Section Main.
   Lemma canon_at : forall k, canon (String "@" k) = String "@" k.
   Proof. intros k. unfold canon. rewrite alias_of_at. reflexivity. Qed.
   Lemma defpre_at : forall c k, defpre c (String "@" k) = String "@" k.
-  Proof. intros [] k; cbn [defpre]; unfold is_alias; rewrite ?alias_of_at; reflexivity. Qed.
+  Proof. intros [] k; cbn [defpre]; rewrite ?alias_of_at; reflexivity. Qed.
 
   Lemma at_head_ok : forall c k, is_ascii_s k = true -> head_ok c (String "@" k).
   Proof.
@@ -1903,37 +1946,37 @@ Section Main.
 
   (* ----- keywords ----- *)
 
-  Lemma pn_kw : forall asm pn c o n tail kwname, spell_name c o n -> opcode_name o = kwname ->
+  Lemma pn_kw : forall asm pn macs compile c o n tail kwname, spell_name c o n -> opcode_name o = kwname ->
     forall (body : res (nat * bytes)),
     (forall cur, is_comment cur = false -> canon cur = kwname ->
-                 parse_next fl2 asm pn cur tail = body) ->
-    parse_next fl2 asm pn (defpre c n) tail = body.
+                 parse_next fl2 asm pn macs compile cur tail = body) ->
+    parse_next fl2 asm pn macs compile (defpre c n) tail = body.
   Proof.
-    intros asm pn c o n tail kwname N E body H. destruct (spell_name_spec c o n N) as (A & B & _).
+    intros asm pn macs compile c o n tail kwname N E body H. destruct (spell_name_spec c o n N) as (A & B & _).
     apply H; [exact B|]. rewrite A. exact E.
   Qed.
 
-  Lemma pn_if_kw : forall asm pn c n tail, spell_name c O_IF n ->
-    parse_next fl2 asm pn (defpre c n) tail = parse_if asm pn tail.
+  Lemma pn_if_kw : forall asm pn macs compile c n tail, spell_name c O_IF n ->
+    parse_next fl2 asm pn macs compile (defpre c n) tail = parse_if asm pn tail.
   Proof.
-    intros. apply (pn_kw asm pn c O_IF n tail "OP_IF" H eq_refl).
+    intros. apply (pn_kw asm pn macs compile c O_IF n tail "OP_IF" H eq_refl).
     intros cur Hc E. unfold parse_next. rewrite Hc, E. reflexivity.
   Qed.
-  Lemma pn_loop_kw : forall asm pn c n tail, spell_name c O_LOOP n ->
-    parse_next fl2 asm pn (defpre c n) tail = parse_loop pn tail.
+  Lemma pn_loop_kw : forall asm pn macs compile c n tail, spell_name c O_LOOP n ->
+    parse_next fl2 asm pn macs compile (defpre c n) tail = parse_loop pn tail.
   Proof.
-    intros. apply (pn_kw asm pn c O_LOOP n tail "OP_LOOP" H eq_refl).
+    intros. apply (pn_kw asm pn macs compile c O_LOOP n tail "OP_LOOP" H eq_refl).
     intros cur Hc E. unfold parse_next. rewrite Hc, E. reflexivity.
   Qed.
-  Lemma pn_def_kw : forall asm pn c n tail, spell_name c O_DEF n ->
-    parse_next fl2 asm pn (defpre c n) tail = parse_def pn tail.
+  Lemma pn_def_kw : forall asm pn macs compile c n tail, spell_name c O_DEF n ->
+    parse_next fl2 asm pn macs compile (defpre c n) tail = parse_def pn tail.
   Proof.
-    intros. apply (pn_kw asm pn c O_DEF n tail "OP_DEF" H eq_refl).
+    intros. apply (pn_kw asm pn macs compile c O_DEF n tail "OP_DEF" H eq_refl).
     intros cur Hc E. unfold parse_next. rewrite Hc, E. reflexivity.
   Qed.
-  Lemma pn_try_kw : forall asm pn c n tail, try_name n ->
-    parse_next fl2 asm pn (defpre c n) tail = parse_try pn tail.
-  Proof. intros asm pn c n tail [->| ->]; destruct c; reflexivity. Qed.
+  Lemma pn_try_kw : forall asm pn macs compile c n tail, try_name n ->
+    parse_next fl2 asm pn macs compile (defpre c n) tail = parse_try pn tail.
+  Proof. intros asm pn macs compile c n tail [->| ->]; destruct c; reflexivity. Qed.
   Lemma try_head_ok : forall c n, try_name n -> head_ok c n.
   Proof. intros c n [->| ->]; apply plain_head_ok; reflexivity. Qed.
 
@@ -2051,11 +2094,13 @@ Section Main.
     split. { apply (name_head_ok c O_IF); [exact N|]. intros _; discriminate. }
     wfs. cbn [List.length] in L. rewrite app_length in L. cbn [List.length] in L.
     destruct (leafb_spec n (spell_name_leaf c O_IF n N)) as (_ & _ & _ & K1 & K2 & _).
-    destruct (good_seq fl2 _ _ _ _ S H) as (_ & B & _).
+    destruct (good_seq fl2 _ _ _ _ S H) as (_ & B & U & _).
     rewrite PN_S, pn_if_kw by exact N. cbn [app]. rewrite <- app_assoc. cbn [app].
     rewrite (parse_if_hoist _ _ n sc (ts ++ r) K1 K2 B).
-    pose proof (IHc H f' [] ltac:(lia) eq_refl) as Rc. rewrite app_nil_r in Rc.
-    unfold ASM. rewrite (asm_loop_run (PN f') _ _ _ _ Rc (sub_ctx_nd c) _ (le_n _)). cbn [rbind].
+    destruct f' as [|f'']; [lia|].
+    pose proof (IHc H f'' [] ltac:(lia) eq_refl) as Rc. rewrite app_nil_r in Rc.
+    rewrite (ASM_free f'' sc U). rewrite (asm_loop_run (PN f'') _ _ _ _ Rc (sub_ctx_nd c) _ (le_n _)). cbn [rbind].
+    set (f' := Datatypes.S f'') in *.
     destruct (IH H0 f' r (List.length sc + 2)%nat (encode cond) n ltac:(lia) Hr) as (_ & R). rewrite R.
     unfold encode. rewrite flat_map_app. cbn [flat_map]. rewrite app_nil_r.
     cbn [List.length]. rewrite app_length. cbn [List.length]. f_equal. f_equal. lia.
@@ -2268,15 +2313,38 @@ End Main.
 (* Main theorem: every spelling of a well-formed program assembles to its encoding          *)
 (* ====================================================================================== *)
 
+Lemma asm_fuel_free : forall fl2 f m syms, existsb bad_symbol syms = false ->
+  asm_fuel fl2 (Datatypes.S f) m syms =
+  rbind (asm_loop (pn_at fl2 f m) (List.length syms) syms) (fun code => Ok (m, code)).
+Proof.
+  intros fl2 f m syms B. cbn [asm_fuel]. rewrite comptime_id by (try exact B; apply le_n). reflexivity.
+Qed.
+
+(* the loop of assemble on a spelling, whatever the macro table and with any sufficient fuel *)
+Lemma spells_loop : forall fl2 p syms, spells fl2 p syms -> wf_prog p = true ->
+  forall m f n, (List.length syms <= f)%nat -> (List.length syms <= n)%nat ->
+  asm_loop (pn_at fl2 f m) n syms = Ok (encode p).
+Proof.
+  intros fl2 p syms S W m f n Lf Ln.
+  pose proof (proj2 (proj2 (spells_correct fl2 m)) _ _ _ _ S W f [] Lf eq_refl) as R.
+  rewrite app_nil_r in R.
+  apply (asm_loop_run _ Top _ _ _ R); [discriminate|exact Ln].
+Qed.
+
+Lemma asm_fuel_spells : forall fl2 p syms, spells fl2 p syms -> wf_prog p = true ->
+  forall m f, (List.length syms <= f)%nat -> asm_fuel fl2 (Datatypes.S f) m syms = Ok (m, encode p).
+Proof.
+  intros fl2 p syms S W m f L. destruct (good_seq fl2 _ _ _ _ S W) as (_ & _ & U & _).
+  rewrite asm_fuel_free by exact U. rewrite (spells_loop fl2 p syms S W m f _ L (le_n _)). reflexivity.
+Qed.
+
 Theorem assemble_r_spells : forall fl2 p syms,
   spells fl2 p syms -> wf_prog p = true -> assemble_r fl2 syms = Ok (encode p).
 Proof.
   intros fl2 p syms S W. unfold assemble_r.
-  destruct (good_seq fl2 _ _ _ _ S W) as (_ & _ & U & _). rewrite U.
-  pose proof (proj2 (proj2 (spells_correct fl2)) _ _ _ _ S W (Datatypes.S (List.length syms)) []
-                ltac:(lia) eq_refl) as R.
-  rewrite app_nil_r in R.
-  apply (asm_loop_run _ Top _ _ _ R); [discriminate|apply le_n].
+  destruct (good_seq fl2 _ _ _ _ S W) as (_ & _ & U & _). rewrite (bad_unmodelled syms U).
+  replace (2 * List.length syms + 2)%nat with (Datatypes.S (2 * List.length syms + 1)) by lia.
+  rewrite (asm_fuel_spells fl2 p syms S W) by lia. reflexivity.
 Qed.
 
 Theorem assemble_spells : forall fl2 p syms,
@@ -2530,21 +2598,28 @@ Qed.
 
 Section Rejections.
   Variable fl2 : Z -> Z.
-  Notation PN := (pn_fuel fl2).
+  Notation PN := (fun f => pn_at fl2 f []).
+  Lemma PN0_S : forall f, PN (S f) = parse_next fl2 (ASM fl2 [] f) (PN f) [] (COMPILE fl2 f).
+  Proof. reflexivity. Qed.
 
   (* the general form: a prefix that is a spelling, then symbols on which parse_next raises *)
   Theorem reject_after : forall nx p sp rest,
     seq fl2 Top nx p sp -> wf_prog p = true -> hd_error rest = nx ->
-    existsb unmodelled_symbol rest = false ->
+    existsb bad_symbol rest = false ->
     (forall f n', asm_loop (PN (S f)) (S n') rest = Err) ->
     assemble_r fl2 (sp ++ rest) = Err.
   Proof.
     intros nx p sp rest S W Hr U E. unfold assemble_r.
-    destruct (good_seq fl2 _ _ _ _ S W) as (_ & _ & U1 & _). rewrite existsb_app, U1, U. cbn [orb].
-    pose proof (proj2 (proj2 (spells_correct fl2)) _ _ _ _ S W (Datatypes.S (List.length (sp ++ rest))) rest
+    destruct (good_seq fl2 _ _ _ _ S W) as (_ & _ & U1 & _).
+    assert (UU : existsb bad_symbol (sp ++ rest) = false) by (rewrite existsb_app, U1, U; reflexivity).
+    rewrite (bad_unmodelled _ UU).
+    replace (2 * List.length (sp ++ rest) + 2)%nat with (Datatypes.S (2 * List.length (sp ++ rest) + 1)) by lia.
+    rewrite asm_fuel_free by exact UU.
+    pose proof (proj2 (proj2 (spells_correct fl2 [])) _ _ _ _ S W (2 * List.length (sp ++ rest) + 1)%nat rest
                   ltac:(rewrite app_length; lia) Hr) as R.
     rewrite (asm_loop_run_gen _ Top _ _ _ _ R ltac:(discriminate) _ Err (le_n _)); [reflexivity|].
-    intros n' L. destruct rest as [|x rest']; [|destruct n'; [cbn [List.length] in L; lia|apply E]].
+    intros n' L. replace (2 * List.length (sp ++ rest) + 1)%nat with (Datatypes.S (2 * List.length (sp ++ rest))) by lia.
+    destruct rest as [|x rest']; [|destruct n'; [cbn [List.length] in L; lia|apply E]].
     (* rest = []: the hypothesis E is then false *)
     specialize (E O O). destruct n'; discriminate E.
   Qed.
@@ -2564,8 +2639,8 @@ Section Rejections.
   Proof.
     intros p sp o n S W N SO SH. apply (reject_after (Some n) p sp [n] S W eq_refl).
     - cbn [existsb]. destruct (leafb_spec n (spell_name_leaf Top o n N)) as (U & _). rewrite U. reflexivity.
-    - intros f n'. apply asm_loop_err. rewrite PN_S.
-      change n with (defpre Top n) at 1. rewrite (pn_opcode fl2 _ _ Top n _ o N SO).
+    - intros f n'. apply asm_loop_err. rewrite PN0_S.
+      change n with (defpre Top n) at 1. rewrite (pn_opcode fl2 _ _ _ _ Top n _ o N SO).
       cbn [tl]. rewrite get_args_nil by exact SH. reflexivity.
   Qed.
 
@@ -2575,8 +2650,8 @@ Section Rejections.
   Proof.
     intros p sp code S W R. apply (reject_after _ p sp [nop_name code] S W eq_refl).
     - cbn [existsb]. destruct (leafb_spec _ (nop_name_leaf code R)) as (U & _). rewrite U. reflexivity.
-    - intros f n'. apply asm_loop_err. rewrite PN_S.
-      change (nop_name code) with (defpre Top (nop_name code)) at 1. rewrite (pn_nop fl2 _ _ Top code _ R).
+    - intros f n'. apply asm_loop_err. rewrite PN0_S.
+      change (nop_name code) with (defpre Top (nop_name code)) at 1. rewrite (pn_nop fl2 _ _ _ _ Top code _ R).
       reflexivity.
   Qed.
 
@@ -2586,21 +2661,21 @@ Section Rejections.
   Proof.
     intros p sp n S W N. apply (reject_after (Some n) p sp [n] S W eq_refl).
     - destruct N as [->| ->]; reflexivity.
-    - intros f n'. apply asm_loop_err. rewrite PN_S. destruct N as [->| ->]; reflexivity.
+    - intros f n'. apply asm_loop_err. rewrite PN0_S. destruct N as [->| ->]; reflexivity.
   Qed.
 
   (* the second operand of two, the third of three *)
   Theorem reject_second_operand_missing : forall p sp o n v,
     seq fl2 Top (Some n) p sp -> wf_prog p = true -> spell_name Top o n ->
     shape_of o = ShSwap \/ shape_of o = ShMultisig \/ shape_of o = ShWriteCache ->
-    unmodelled_symbol v = false ->
+    bad_symbol v = false ->
     assemble_r fl2 (sp ++ [n; v]) = Err.
   Proof.
     intros p sp o n v S W N SH U. apply (reject_after (Some n) p sp [n; v] S W eq_refl).
     - cbn [existsb]. destruct (leafb_spec n (spell_name_leaf Top o n N)) as (U' & _). rewrite U', U. reflexivity.
-    - intros f n'. apply asm_loop_err. rewrite PN_S.
+    - intros f n'. apply asm_loop_err. rewrite PN0_S.
       assert (SO : simple_op o = true) by (apply simple_by_shape; destruct SH as [H|[H|H]]; rewrite H; exact I).
-      change n with (defpre Top n) at 1. rewrite (pn_opcode fl2 _ _ Top n _ o N SO).
+      change n with (defpre Top n) at 1. rewrite (pn_opcode fl2 _ _ _ _ Top n _ o N SO).
       cbn [tl]. unfold get_args. destruct SH as [H|[H|H]]; rewrite H; reflexivity.
   Qed.
 
@@ -2643,29 +2718,29 @@ Section Rejections.
 
   Theorem reject_bad_byte_operand : forall p sp o n v rest,
     seq fl2 Top (Some n) p sp -> wf_prog p = true -> spell_name Top o n -> is_sh1 (shape_of o) = true ->
-    val_byte fl2 v = Err -> existsb unmodelled_symbol (v :: rest) = false ->
+    val_byte fl2 v = Err -> existsb bad_symbol (v :: rest) = false ->
     assemble_r fl2 (sp ++ n :: v :: rest) = Err.
   Proof.
     intros p sp o n v rest S W N SH E U. apply (reject_after (Some n) p sp (n :: v :: rest) S W eq_refl).
     - cbn [existsb] in *. destruct (leafb_spec n (spell_name_leaf Top o n N)) as (U' & _). rewrite U'. exact U.
-    - intros f n'. apply asm_loop_err. rewrite PN_S.
+    - intros f n'. apply asm_loop_err. rewrite PN0_S.
       assert (SO : simple_op o = true).
       { destruct (simple_op o) eqn:Q; [reflexivity|].
         destruct (shape_simple o Q) as [Q1|[Q1|Q1]]; rewrite Q1 in SH; discriminate SH. }
-      change n with (defpre Top n) at 1. rewrite (pn_opcode fl2 _ _ Top n _ o N SO).
+      change n with (defpre Top n) at 1. rewrite (pn_opcode fl2 _ _ _ _ Top n _ o N SO).
       cbn [tl]. unfold get_args. destruct (shape_of o); try discriminate SH; unfold args_push0; rewrite E; reflexivity.
   Qed.
 
   Theorem reject_bad_swap_operand : forall p sp n a b rest,
     seq fl2 Top (Some n) p sp -> wf_prog p = true -> spell_name Top O_SWAP n ->
     val_index a = Err \/ (exists va, val_index a = Ok va /\ val_index b = Err) ->
-    existsb unmodelled_symbol (a :: b :: rest) = false ->
+    existsb bad_symbol (a :: b :: rest) = false ->
     assemble_r fl2 (sp ++ n :: a :: b :: rest) = Err.
   Proof.
     intros p sp n a b rest S W N E U. apply (reject_after (Some n) p sp (n :: a :: b :: rest) S W eq_refl).
     - cbn [existsb] in *. destruct (leafb_spec n (spell_name_leaf Top _ n N)) as (U' & _). rewrite U'. exact U.
-    - intros f n'. apply asm_loop_err. rewrite PN_S.
-      change n with (defpre Top n) at 1. rewrite (pn_opcode fl2 _ _ Top n _ O_SWAP N eq_refl).
+    - intros f n'. apply asm_loop_err. rewrite PN0_S.
+      change n with (defpre Top n) at 1. rewrite (pn_opcode fl2 _ _ _ _ Top n _ O_SWAP N eq_refl).
       cbn [tl]. unfold get_args. cbn [shape_of]. unfold args_swap.
       destruct E as [E|(va & E1 & E2)]; [rewrite E; reflexivity|]. rewrite E1, E2. reflexivity.
   Qed.
@@ -2690,7 +2765,7 @@ Section Rejections.
   Theorem reject_push1_size : forall p sp n a v s rest,
     seq fl2 Top (Some n) p sp -> wf_prog p = true -> spell_name Top O_PUSH1 n ->
     sp_var1 fl2 v s -> oplike s = false -> check_push_size (Some a) v = Err ->
-    existsb unmodelled_symbol (a :: rest) = false ->
+    existsb bad_symbol (a :: rest) = false ->
     assemble_r fl2 (sp ++ n :: a :: s :: rest) = Err.
   Proof.
     intros p sp n a v s rest S W N V O E U.
@@ -2698,8 +2773,8 @@ Section Rejections.
     - cbn [existsb] in *. destruct (leafb_spec n (spell_name_leaf Top _ n N)) as (U1 & _).
       destruct (leafb_spec s (sp_var1_leaf fl2 v s V)) as (U2 & _).
       apply orb_false_elim in U as [Ua Ur]. rewrite U1, U2, Ua, Ur. reflexivity.
-    - intros f n'. apply asm_loop_err. rewrite PN_S.
-      change n with (defpre Top n) at 1. rewrite (pn_opcode fl2 _ _ Top n _ O_PUSH1 N eq_refl).
+    - intros f n'. apply asm_loop_err. rewrite PN0_S.
+      change n with (defpre Top n) at 1. rewrite (pn_opcode fl2 _ _ _ _ Top n _ O_PUSH1 N eq_refl).
       cbn [tl]. unfold get_args. cbn [shape_of]. unfold args_push1. cbn [pick_val]. rewrite O. cbn [rbind].
       rewrite (sp_var1_ok fl2 v s V). cbn [rbind]. unfold len1_r.
       destruct (blen v <? 256); [|reflexivity]. cbn [rbind]. rewrite E. reflexivity.
@@ -2708,7 +2783,7 @@ Section Rejections.
   Theorem reject_push2_size : forall p sp n a v s rest,
     seq fl2 Top (Some n) p sp -> wf_prog p = true -> spell_name Top O_PUSH2 n ->
     sp_push2 fl2 v s -> oplike s = false -> check_push_size (Some a) v = Err ->
-    existsb unmodelled_symbol (a :: rest) = false ->
+    existsb bad_symbol (a :: rest) = false ->
     assemble_r fl2 (sp ++ n :: a :: s :: rest) = Err.
   Proof.
     intros p sp n a v s rest S W N V O E U.
@@ -2716,8 +2791,8 @@ Section Rejections.
     - cbn [existsb] in *. destruct (leafb_spec n (spell_name_leaf Top _ n N)) as (U1 & _).
       destruct (leafb_spec s (sp_push2_leaf fl2 v s V)) as (U2 & _).
       apply orb_false_elim in U as [Ua Ur]. rewrite U1, U2, Ua, Ur. reflexivity.
-    - intros f n'. apply asm_loop_err. rewrite PN_S.
-      change n with (defpre Top n) at 1. rewrite (pn_opcode fl2 _ _ Top n _ O_PUSH2 N eq_refl).
+    - intros f n'. apply asm_loop_err. rewrite PN0_S.
+      change n with (defpre Top n) at 1. rewrite (pn_opcode fl2 _ _ _ _ Top n _ O_PUSH2 N eq_refl).
       cbn [tl]. unfold get_args. cbn [shape_of]. unfold args_push2. cbn [pick_val]. rewrite O. cbn [rbind].
       rewrite (sp_push2_ok fl2 v s V). cbn [rbind]. unfold len2_r.
       destruct (blen v <? 65536); [|reflexivity]. cbn [rbind]. rewrite E. reflexivity.
@@ -2730,9 +2805,9 @@ Section Rejections.
     String.eqb (canon n) "OP_PUSH" = false /\ String.eqb (canon n) "OP_TRY" = false /\
     match canon n with String c _ => Ascii.eqb c "@" = false /\ Ascii.eqb c "!" = false | EmptyString => True end.
 
-  Lemma pn_unknown : forall asm pn n tail, unknown_name n -> parse_next fl2 asm pn n tail = Err.
+  Lemma pn_unknown : forall asm pn macs compile n tail, unknown_name n -> parse_next fl2 asm pn macs compile n tail = Err.
   Proof.
-    intros asm pn n tail (A & B & C & D & E & G). unfold parse_next. rewrite A.
+    intros asm pn macs compile n tail (A & B & C & D & E & G). unfold parse_next. rewrite A.
     destruct (canon n) as [|c0 cr] eqn:Q; [reflexivity|]. destruct G as [G1 G2].
     rewrite B, C, D, E, G1, G2.
     assert (X1 : String.eqb (String c0 cr) "@=" = false).
@@ -2746,11 +2821,11 @@ Section Rejections.
 
   Theorem reject_unknown_name : forall nx p sp n rest,
     seq fl2 Top nx p sp -> wf_prog p = true -> nx = Some n -> unknown_name n ->
-    existsb unmodelled_symbol (n :: rest) = false ->
+    existsb bad_symbol (n :: rest) = false ->
     assemble_r fl2 (sp ++ n :: rest) = Err.
   Proof.
     intros nx p sp n rest S W -> K U. apply (reject_after _ p sp (n :: rest) S W eq_refl U).
-    intros f n'. apply asm_loop_err. rewrite PN_S. apply pn_unknown. exact K.
+    intros f n'. apply asm_loop_err. rewrite PN0_S. apply pn_unknown. exact K.
   Qed.
 
   Lemma unknown_specials : Forall unknown_name
@@ -2761,7 +2836,7 @@ Section Rejections.
   (* 4. unbalanced braces *)
   (* 4a. a closing brace that closes nothing *)
   Corollary reject_extra_close : forall p sp rest,
-    seq fl2 Top (Some "}") p sp -> wf_prog p = true -> existsb unmodelled_symbol rest = false ->
+    seq fl2 Top (Some "}") p sp -> wf_prog p = true -> existsb bad_symbol rest = false ->
     assemble_r fl2 (sp ++ "}" :: rest) = Err.
   Proof.
     intros p sp rest S W U. apply (reject_unknown_name _ p sp "}" rest S W eq_refl); [|exact U].
@@ -2780,15 +2855,15 @@ Section Rejections.
   Theorem reject_unclosed_block : forall p sp n rest,
     seq fl2 Top (Some n) p sp -> wf_prog p = true ->
     spell_name Top O_IF n \/ spell_name Top O_LOOP n \/ try_name n ->
-    mem "}" rest = false -> existsb unmodelled_symbol rest = false ->
+    mem "}" rest = false -> existsb bad_symbol rest = false ->
     assemble_r fl2 (sp ++ n :: "{" :: rest) = Err.
   Proof.
     intros p sp n rest S W N M U. apply (reject_after (Some n) p sp (n :: "{" :: rest) S W eq_refl).
     - cbn [existsb]. rewrite U.
-      assert (unmodelled_symbol n = false) as ->; [|reflexivity].
+      assert (bad_symbol n = false) as ->; [|reflexivity].
       destruct N as [N|[N|[->| ->]]]; try reflexivity;
         destruct (leafb_spec n (spell_name_leaf Top _ n N)) as (U' & _); exact U'.
-    - intros f n'. apply asm_loop_err. rewrite PN_S. destruct N as [N|[N|N]].
+    - intros f n'. apply asm_loop_err. rewrite PN0_S. destruct N as [N|[N|N]].
       + change n with (defpre Top n) at 1. rewrite pn_if_kw by exact N.
         rewrite parse_if_nohoist by reflexivity. unfold if_rest. rewrite block_start_unclosed by exact M. reflexivity.
       + change n with (defpre Top n) at 1. rewrite pn_loop_kw by exact N.
@@ -2799,7 +2874,7 @@ Section Rejections.
 
   Theorem reject_unclosed_def : forall p sp n h hs rest,
     seq fl2 Top (Some n) p sp -> wf_prog p = true -> spell_name Top O_DEF n -> sp_handle h hs ->
-    mem "}" rest = false -> existsb unmodelled_symbol rest = false ->
+    mem "}" rest = false -> existsb bad_symbol rest = false ->
     assemble_r fl2 (sp ++ n :: hs :: "{" :: rest) = Err.
   Proof.
     intros p sp n h hs rest S W N Hh M U.
@@ -2807,7 +2882,7 @@ Section Rejections.
     - cbn [existsb]. rewrite U.
       destruct (leafb_spec n (spell_name_leaf Top _ n N)) as (U1 & _).
       destruct (leafb_spec hs (sp_handle_leaf h hs Hh)) as (U2 & _). rewrite U1, U2. reflexivity.
-    - intros f n'. apply asm_loop_err. rewrite PN_S.
+    - intros f n'. apply asm_loop_err. rewrite PN0_S.
       change n with (defpre Top n) at 1. rewrite pn_def_kw by exact N.
       unfold parse_def. rewrite (sp_handle_ok h hs Hh). cbn [rbind].
       change (String.eqb "{" "{") with true. cbv iota.
@@ -2906,7 +2981,7 @@ Proof.
     cbn [map index_of] in E. destruct (String.eqb (opcode_name o) t) eqn:Q.
     - apply String.eqb_eq in Q. eauto.
     - destruct (index_of t (map opcode_name l)) eqn:E2; [|discriminate E]. eapply IH. reflexivity. }
-  destruct X as (o & ->). exists o. split; [reflexivity|]. right. split; [exact I|discriminate].
+  destruct X as (o & ->). exists o. split; [reflexivity|]. right. exact I.
 Qed.
 
 (* ====================================================================================== *)
@@ -2952,14 +3027,20 @@ Theorem finding_push1_lookahead :
   asm ["PUSH1"; "x01"; "TRUE"] = enc [IVar1 O_PUSH1 [x01]; IOp0 O_TRUE].
 Proof. repeat split; vm_compute; reflexivity. Qed.
 
-(* A4 (O2).  "def 0 { op_rcz x01 }": the OP_-prefixed short aliases are rejected directly inside a
-   DEF body (parse_def turns OP_RCZ into OP_OP_RCZ) while they are accepted everywhere else *)
-Theorem finding_def_alias :
-  asm ["DEF"; "0"; "{"; "OP_RCZ"; "x01"; "}"] = Err /\
+(* A4 (O2) -- FIXED in the implementation: an alias directly inside a DEF body is now resolved
+   through the alias table as everywhere else.  Before the fix parse_def turned OP_RCZ into
+   OP_OP_RCZ and "def 0 { op_rcz x01 }" was rejected.  [spell_name] is now the same in every context. *)
+Theorem fixed_def_alias :
+  asm ["DEF"; "0"; "{"; "OP_RCZ"; "x01"; "}"] = enc [IDef x00 [IVar1 O_READ_CACHE_SIZE [x01]]] /\
   asm ["DEF"; "0"; "{"; "RCZ"; "x01"; "}"] = enc [IDef x00 [IVar1 O_READ_CACHE_SIZE [x01]]] /\
+  asm ["DEF"; "0"; "{"; "ADD"; "d2"; "}"] = enc [IDef x00 [IOp1 O_ADD_INTS x02]] /\
   asm ["OP_RCZ"; "x01"] = enc [IVar1 O_READ_CACHE_SIZE [x01]] /\
-  asm ["IF"; "{"; "OP_RCZ"; "x01"; "}"] = enc [IIf [IVar1 O_READ_CACHE_SIZE [x01]]].
+  asm ["DEF"; "0"; "{"; "DEF"; "1"; "{"; "TRUE"; "}"; "}"] = Err.
 Proof. repeat split; vm_compute; reflexivity. Qed.
+
+(* the names accepted directly in a DEF body are those accepted everywhere *)
+Theorem spell_name_any_context : forall c c' o s, spell_name c o s <-> spell_name c' o s.
+Proof. intros. unfold spell_name. tauto. Qed.
 
 (* A5 (O4).  "try true end_try": END_TRY is announced by parse_try's own check (and error message)
    but never handled *)
@@ -3012,7 +3093,7 @@ Proof.
   - right. apply IH. exact H.
 Qed.
 Lemma alias_name : forall c a o, alias_of a = Some (opcode_name o) -> is_prefix "OP_" a = false -> spell_name c o a.
-Proof. intros c a o H P. right. split; [apply assoc_In; exact H|intros _; exact P]. Qed.
+Proof. intros c a o H P. right. apply assoc_In; exact H. Qed.
 
 Definition example_prog : list instr :=
   [IOp0 O_TRUE; IIfElse [IOp1 O_PUSH0 x01] [IVar1 O_PUSH1 [x01; x02]];
@@ -3048,6 +3129,562 @@ Qed.
 Example example_assembles : assemble fl2_exact example_syms = Some (encode example_prog).
 Proof. apply assemble_spells; [apply example_spells|reflexivity]. Qed.
 
+(* ====================================================================================== *)
+(* Macros and comptime blocks                                                               *)
+(* ====================================================================================== *)
+
+(* != name [ args ] { template } *)
+Definition defsyms (name : string) (args tmpl : list string) : list string :=
+  "!=" :: name :: "[" :: args ++ "]" :: "{" :: tmpl ++ ["}"].
+Definition def_ok (name : string) (args tmpl : list string) : Prop :=
+  is_ascii_s name = true /\ isalnum (lower_s name) = true /\
+  Forall (fun a => isalnum a = true) args /\ (forall k, scan "{" "}" tmpl k = Some k) /\
+  existsb unmodelled_symbol tmpl = false.
+Definition mac_of (args tmpl : list string) : macro := {| m_args := args; m_template := tmpl |}.
+
+Lemma alnum_not : forall a x, isalnum a = true -> isalnum x = false -> String.eqb a x = false.
+Proof.
+  intros a x A X. destruct (String.eqb a x) eqn:E; [|reflexivity]. apply String.eqb_eq in E. subst. congruence.
+Qed.
+Lemma lower_alnum_not : forall a x, isalnum (lower_s a) = true -> isalnum (lower_s x) = false -> String.eqb a x = false.
+Proof.
+  intros a x A X. destruct (String.eqb a x) eqn:E; [|reflexivity]. apply String.eqb_eq in E. subst. congruence.
+Qed.
+
+Lemma scan_neutral : forall op cl l, Forall (fun a => String.eqb a cl = false /\ String.eqb a op = false) l ->
+  forall k, scan op cl l k = Some k.
+Proof.
+  induction 1 as [|a l [A B] F IH]; intros k; [reflexivity|]. cbn [scan]. rewrite A, B. apply IH.
+Qed.
+Lemma alnum_scan : forall op cl l, isalnum op = false -> isalnum cl = false ->
+  Forall (fun a => isalnum a = true) l -> forall k, scan op cl l k = Some k.
+Proof.
+  intros op cl l O C F. apply scan_neutral. revert F. apply Forall_impl. intros a A.
+  split; apply alnum_not; assumption.
+Qed.
+Lemma all_alnum_ok : forall l, Forall (fun a => isalnum a = true) l -> all_alnum_r l = Ok tt.
+Proof.
+  induction 1 as [|a l A F IH]; [reflexivity|]. cbn [all_alnum_r]. unfold alnum_r.
+  rewrite (isalnum_ascii a A), A. cbn [negb rbind]. exact IH.
+Qed.
+Lemma alnum_unmodelled : forall l, Forall (fun a => isalnum a = true) l -> existsb unmodelled_symbol l = false.
+Proof.
+  induction 1 as [|a l A F IH]; [reflexivity|]. cbn [existsb]. rewrite IH, orb_false_r.
+  unfold unmodelled_symbol. rewrite (isalnum_ascii a A). reflexivity.
+Qed.
+
+Lemma nth_error_mid : forall (A : Type) (a : list A) x b, nth_error (a ++ x :: b) (List.length a) = Some x.
+Proof. induction a; intros; [reflexivity|]. cbn [app List.length nth_error]. apply IHa. Qed.
+Lemma firstn_skipn_mid : forall (A : Type) (a b c : list A),
+  firstn (List.length b) (skipn (List.length a) (a ++ b ++ c)) = b.
+Proof. intros. rewrite skipn_app_len. induction b; [reflexivity|]. cbn [List.length app firstn]. rewrite IHb. reflexivity. Qed.
+
+Lemma skipn_app_plus : forall (A : Type) (a b : list A) k, skipn (List.length a + k) (a ++ b) = skipn k b.
+Proof. induction a; intros; [reflexivity|]. cbn [List.length plus app skipn]. apply IHa. Qed.
+
+Lemma define_macro_ok : forall name args tmpl rest, def_ok name args tmpl ->
+  define_macro (defsyms name args tmpl ++ rest) =
+  Ok (List.length (defsyms name args tmpl), lower_s name, mac_of args tmpl).
+Proof.
+  intros name args tmpl rest (A & N & FA & B & _). unfold defsyms. cbn [app]. unfold define_macro.
+  assert (An : is_ascii_s (lower_s name) = true) by (apply isalnum_ascii; exact N).
+  unfold alnum_r at 1. rewrite An, N. cbn [negb rbind]. change (String.eqb "[" "[") with true. cbv iota.
+  assert (N1 : String.eqb name "]" = false) by (apply lower_alnum_not; [exact N|reflexivity]).
+  assert (N2 : String.eqb name "[" = false) by (apply lower_alnum_not; [exact N|reflexivity]).
+  assert (N3 : String.eqb name "}" = false) by (apply lower_alnum_not; [exact N|reflexivity]).
+  assert (N4 : String.eqb name "{" = false) by (apply lower_alnum_not; [exact N|reflexivity]).
+  (* the closing bracket *)
+  assert (F1 : find_matching_brace ("!=" :: name :: "[" :: (args ++ "]" :: "{" :: tmpl ++ ["}"]) ++ rest) "[" "]"
+               = Some (3 + List.length args)%nat).
+  { unfold find_matching_brace. cbn [fmb_go String.eqb Ascii.eqb Bool.eqb]. rewrite N1, N2.
+    cbn [String.eqb Ascii.eqb Bool.eqb]. rewrite <- app_assoc. cbn [app].
+    apply (fmb_balanced "[" "]" args). apply alnum_scan; [reflexivity|reflexivity|exact FA]. }
+  rewrite F1. cbn [of_opt rbind].
+  replace (3 + List.length args - 3)%nat with (List.length args) by lia.
+  cbn [skipn]. rewrite <- app_assoc. cbn [app].
+  rewrite firstn_app_len. rewrite (all_alnum_ok args FA). cbn [rbind].
+  assert (E2 : nth_error ("!=" :: name :: "[" :: args ++ "]" :: "{" :: (tmpl ++ ["}"]) ++ rest)
+                 (Datatypes.S (3 + List.length args)) = Some "{").
+  { replace (Datatypes.S (3 + List.length args)) with (3 + List.length (args ++ ["]"]))%nat
+      by (rewrite app_length; cbn [List.length]; lia).
+    change (args ++ "]" :: "{" :: (tmpl ++ ["}"]) ++ rest)
+      with (args ++ ["]"] ++ "{" :: (tmpl ++ ["}"]) ++ rest). rewrite app_assoc.
+    cbn [plus nth_error]. apply nth_error_mid. }
+  rewrite E2. change (String.eqb "{" "{") with true. cbv iota.
+  assert (F2 : find_matching_brace ("!=" :: name :: "[" :: args ++ "]" :: "{" :: (tmpl ++ ["}"]) ++ rest) "{" "}"
+               = Some (5 + List.length args + List.length tmpl)%nat).
+  { unfold find_matching_brace. cbn [fmb_go String.eqb Ascii.eqb Bool.eqb]. rewrite N3, N4.
+    cbn [String.eqb Ascii.eqb Bool.eqb].
+    assert (G : forall l o c i r, Forall (fun a => isalnum a = true) l ->
+                fmb_go "{" "}" o c i (l ++ r) = fmb_go "{" "}" o c (i + List.length l) r).
+    { induction l as [|a l IH]; intros o c i r F; [rewrite Nat.add_0_r; reflexivity|].
+      inversion F as [|a' l' Ha Fl]; subst. cbn [app fmb_go List.length].
+      rewrite (alnum_not a "}" Ha eq_refl), (alnum_not a "{" Ha eq_refl). rewrite IH by exact Fl. f_equal. lia. }
+    rewrite (G args 0 0 3 _ FA)%nat. cbn [fmb_go String.eqb Ascii.eqb Bool.eqb].
+    rewrite <- app_assoc. cbn [app].
+    rewrite (fmb_balanced "{" "}" tmpl rest _ B). f_equal; lia. }
+  rewrite F2. cbn [of_opt rbind]. f_equal. f_equal.
+  - f_equal. cbn [List.length]. rewrite app_length. cbn [List.length]. rewrite app_length. cbn [List.length]. lia.
+  - unfold mac_of. f_equal.
+    replace (5 + List.length args + List.length tmpl - (3 + List.length args + 2))%nat with (List.length tmpl) by lia.
+    replace (3 + List.length args + 2)%nat with (3 + (List.length args + 2))%nat by lia.
+    cbn [plus skipn]. rewrite skipn_app_plus. cbn [skipn]. rewrite <- app_assoc. apply firstn_app_len.
+Qed.
+
+Definition def3 : Type := (string * list string * list string)%type.
+Definition def3_ok (d : def3) : Prop := let '(n, a, t) := d in def_ok n a t.
+Definition defs_syms (ds : list def3) : list string := flat_map (fun '(n, a, t) => defsyms n a t) ds.
+(* the macro table after the definitions (newest first) *)
+Fixpoint table_of (ds : list def3) (m : macros) : macros :=
+  match ds with
+  | [] => m
+  | (n, a, t) :: r => table_of r ((lower_s n, mac_of a t) :: m)
+  end.
+
+Section MacroTheorems.
+  Variable fl2 : Z -> Z.
+  Variable asm : macros -> list string -> res (macros * bytes).
+
+  Lemma comptime_pass : forall s1, existsb bad_symbol s1 = false -> forall n m rest,
+    comptime asm (List.length s1 + n) m (s1 ++ rest) =
+    rbind (comptime asm n m rest) (fun '(m', new) => Ok (m', s1 ++ new)).
+  Proof.
+    induction s1 as [|s s1 IH]; intros B n m rest.
+    - cbn [List.length plus app]. destruct (comptime asm n m rest) as [[m' new]| |]; reflexivity.
+    - cbn [existsb] in B. apply orb_false_elim in B as [B1 B2].
+      destruct (bad_symbol_spec s B1) as (E1 & E2 & E3 & _).
+      cbn [List.length plus app comptime]. rewrite E1, E2, E3. cbn [orb]. rewrite (IH B2 n m rest).
+      destruct (comptime asm n m rest) as [[m' new]| |]; reflexivity.
+  Qed.
+
+  Lemma comptime_def : forall n m name args tmpl rest, def_ok name args tmpl ->
+    comptime asm (Datatypes.S n) m (defsyms name args tmpl ++ rest) =
+    comptime asm n ((lower_s name, mac_of args tmpl) :: m) rest.
+  Proof.
+    intros n m name args tmpl rest D.
+    pose proof (define_macro_ok name args tmpl rest D) as E. unfold defsyms in *. cbn [app] in *.
+    cbn [comptime]. change (String.eqb "!=" "!=") with true. cbv iota. rewrite E. cbn [rbind].
+    change ("!=" :: name :: "[" :: (args ++ "]" :: "{" :: tmpl ++ ["}"]) ++ rest)
+      with (("!=" :: name :: "[" :: args ++ "]" :: "{" :: tmpl ++ ["}"]) ++ rest).
+    rewrite skipn_app_len. reflexivity.
+  Qed.
+
+  Lemma comptime_defs : forall ds, Forall def3_ok ds -> forall n m rest,
+    comptime asm (List.length ds + n) m (defs_syms ds ++ rest) = comptime asm n (table_of ds m) rest.
+  Proof.
+    induction 1 as [|[[nm a] t] ds D F IH]; intros n m rest; [reflexivity|].
+    unfold defs_syms. cbn [flat_map List.length plus table_of]. rewrite <- app_assoc.
+    rewrite (comptime_def _ m nm a t _ D). apply IH.
+  Qed.
+End MacroTheorems.
+
+Lemma def_unmodelled : forall name args tmpl, def_ok name args tmpl ->
+  existsb unmodelled_symbol (defsyms name args tmpl) = false.
+Proof.
+  intros name args tmpl (A & _ & FA & _ & U). unfold defsyms. cbn [existsb].
+  rewrite existsb_app. cbn [existsb]. rewrite existsb_app. cbn [existsb].
+  rewrite (alnum_unmodelled args FA), U. unfold unmodelled_symbol at 2. rewrite A. reflexivity.
+Qed.
+Lemma defs_unmodelled : forall ds, Forall def3_ok ds -> existsb unmodelled_symbol (defs_syms ds) = false.
+Proof.
+  induction 1 as [|[[nm a] t] ds D F IH]; [reflexivity|]. unfold defs_syms. cbn [flat_map].
+  rewrite existsb_app, (def_unmodelled nm a t D). exact IH.
+Qed.
+Lemma defs_length : forall ds, (List.length ds <= List.length (defs_syms ds))%nat.
+Proof.
+  induction ds as [|[[nm a] t] ds IH]; [apply le_n|]. unfold defs_syms in *. cbn [flat_map List.length].
+  rewrite app_length. unfold defsyms at 1. cbn [List.length]. lia.
+Qed.
+
+(* (d) definitions do not emit code *)
+Theorem definitions_emit_no_code : forall fl2 ds, Forall def3_ok ds -> assemble_r fl2 (defs_syms ds) = Ok [].
+Proof.
+  intros fl2 ds F. unfold assemble_r. rewrite (defs_unmodelled ds F).
+  set (L := List.length (defs_syms ds)). pose proof (defs_length ds) as Ld. fold L in Ld.
+  assert (E : forall a, comptime a L [] (defs_syms ds) = Ok (table_of ds [], [])).
+  { intros a. replace L with (List.length ds + (L - List.length ds))%nat by lia.
+    rewrite <- (app_nil_r (defs_syms ds)). rewrite (comptime_defs _ ds F).
+    destruct (L - List.length ds)%nat; reflexivity. }
+  replace (2 * L + 2)%nat with (Datatypes.S (2 * L + 1)) by lia. cbn [asm_fuel]. fold L.
+  rewrite E. reflexivity.
+Qed.
+
+(* adding an unused definition anywhere at top level does not change the result *)
+Theorem unused_definition : forall fl2 p s1 s2 name args tmpl,
+  spells fl2 p (s1 ++ s2) -> wf_prog p = true -> def_ok name args tmpl ->
+  assemble_r fl2 (s1 ++ defsyms name args tmpl ++ s2) = Ok (encode p) /\
+  assemble_r fl2 (s1 ++ s2) = Ok (encode p).
+Proof.
+  intros fl2 p s1 s2 name args tmpl S W D. split; [|apply assemble_r_spells; assumption].
+  destruct (good_seq fl2 _ _ _ _ S W) as (_ & _ & U & _).
+  rewrite existsb_app in U. apply orb_false_elim in U as [U1 U2].
+  unfold assemble_r.
+  rewrite existsb_app, (bad_unmodelled s1 U1), existsb_app, (def_unmodelled _ _ _ D), (bad_unmodelled s2 U2).
+  cbn [orb].
+  set (L := List.length (s1 ++ defsyms name args tmpl ++ s2)).
+  assert (EL : L = (List.length s1 + Datatypes.S (List.length args + List.length tmpl + 5 + List.length s2))%nat).
+  { unfold L, defsyms. rewrite app_length. cbn [app List.length]. rewrite !app_length. cbn [List.length].
+    rewrite !app_length. cbn [List.length]. lia. }
+  assert (E : forall a, comptime a L [] (s1 ++ defsyms name args tmpl ++ s2) =
+                        Ok ([(lower_s name, mac_of args tmpl)], s1 ++ s2)).
+  { intros a. rewrite EL. rewrite (comptime_pass _ s1 U1). rewrite (comptime_def _ _ _ name args tmpl s2 D).
+    rewrite comptime_id by (try exact U2; lia). reflexivity. }
+  replace (2 * L + 2)%nat with (Datatypes.S (2 * L + 1)) by lia. cbn [asm_fuel]. fold L.
+  rewrite E. cbn [rbind].
+  rewrite (spells_loop fl2 p (s1 ++ s2) S W) by (rewrite ?app_length in *; lia). reflexivity.
+Qed.
+
+Lemma skipn_block : forall (A : Type) (a b x : A) l post,
+  skipn (Datatypes.S (2 + List.length l)) (a :: b :: l ++ x :: post) = post.
+Proof.
+  intros. replace (Datatypes.S (2 + List.length l)) with (List.length (a :: b :: l ++ [x]))
+    by (cbn [List.length]; rewrite app_length; cbn [List.length]; lia).
+  change (a :: b :: l ++ x :: post) with (a :: b :: l ++ [x] ++ post).
+  rewrite app_assoc. change (a :: b :: (l ++ [x]) ++ post) with ((a :: b :: l ++ [x]) ++ post).
+  apply skipn_app_len.
+Qed.
+
+(* (c) a comptime block in an operand position is the value symbol x<hex of its code> *)
+Theorem comptime_block : forall fl2 pS S p pre post,
+  spells fl2 pS S -> wf_prog pS = true ->
+  spells fl2 p (pre ++ tok_x (encode pS) :: post) -> wf_prog p = true ->
+  assemble_r fl2 (pre ++ "~" :: "{" :: S ++ "}" :: post) = Ok (encode p).
+Proof.
+  intros fl2 pS S p pre post SS WS SP WP.
+  destruct (good_seq fl2 _ _ _ _ SS WS) as (BS & _ & US & _).
+  destruct (good_seq fl2 _ _ _ _ SP WP) as (_ & _ & UP & _).
+  rewrite existsb_app in UP. apply orb_false_elim in UP as [U1 U2].
+  cbn [existsb] in U2. apply orb_false_elim in U2 as [_ U2].
+  unfold assemble_r.
+  assert (UU : existsb unmodelled_symbol (pre ++ "~" :: "{" :: S ++ "}" :: post) = false).
+  { rewrite existsb_app, (bad_unmodelled pre U1). cbn [existsb]. rewrite existsb_app, (bad_unmodelled S US).
+    cbn [existsb]. rewrite (bad_unmodelled post U2). reflexivity. }
+  rewrite UU.
+  set (L := List.length (pre ++ "~" :: "{" :: S ++ "}" :: post)).
+  assert (EL : L = (List.length pre + Datatypes.S (List.length S + 2 + List.length post))%nat).
+  { unfold L. rewrite app_length. cbn [List.length]. rewrite app_length. cbn [List.length]. lia. }
+  assert (E : comptime (asm_fuel fl2 (2 * L + 1)) L [] (pre ++ "~" :: "{" :: S ++ "}" :: post) =
+              Ok ([], pre ++ tok_x (encode pS) :: post)).
+  { rewrite EL at 2. rewrite (comptime_pass _ pre U1). cbn [comptime String.eqb Ascii.eqb Bool.eqb orb].
+    assert (F : find_matching_brace ("~" :: "{" :: S ++ "}" :: post) "{" "}" = Some (2 + List.length S)%nat).
+    { unfold find_matching_brace. cbn [fmb_go String.eqb Ascii.eqb Bool.eqb]. apply (fmb_balanced "{" "}" S post 2 BS). }
+    rewrite F. cbn [of_opt rbind].
+    replace (2 + List.length S - 2)%nat with (List.length S) by lia.
+    change (skipn 2 ("~" :: "{" :: S ++ "}" :: post)) with (S ++ "}" :: post). rewrite firstn_app_len.
+    replace (2 * L + 1)%nat with (Datatypes.S (2 * L)) by lia.
+    rewrite (asm_fuel_spells fl2 pS S SS WS) by lia. cbn [rbind].
+    rewrite skipn_block.
+    rewrite comptime_id by (try exact U2; lia). reflexivity. }
+  replace (2 * L + 2)%nat with (Datatypes.S (2 * L + 1)) by lia. cbn [asm_fuel]. fold L.
+  rewrite E. cbn [rbind].
+  rewrite (spells_loop fl2 p _ SP WP) by (rewrite ?app_length in *; cbn [List.length] in *; lia). reflexivity.
+Qed.
+
+(* e.g. push ~ { S } is the PUSH of the assembled bytes of S *)
+Corollary push_comptime : forall fl2 pS S i, spells fl2 pS S -> wf_prog pS = true ->
+  push_instr (encode pS) = Some i ->
+  assemble_r fl2 ("PUSH" :: "~" :: "{" :: S ++ ["}"]) = Ok (encode1 i).
+Proof.
+  intros fl2 pS S i SS WS P. rewrite <- encode_one.
+  apply (comptime_block fl2 pS S [i] ["PUSH"] [] SS WS).
+  - apply (sq_cons fl2 Top None [i] ["PUSH"; tok_x (encode pS)] [] []); [|apply sq_nil].
+    apply (st_pushp fl2 Top _ "PUSH" (encode pS) _ i); [left; reflexivity| |exact P].
+    apply sp_x; [left; reflexivity|apply sp_hex_hex].
+  - cbn [wf_prog forallb]. rewrite andb_true_r. apply (push_minimal _ _ P).
+Qed.
+
+(* ---------- (b) macro expansion ---------- *)
+
+(* changing the symbol that follows a statement *)
+Definition renx_ok (nx nx' : option string) : Prop :=
+  nx' = nx \/ ((forall t, nx = Some t -> oplike t = false) /\ nx' <> Some "ELSE" /\ nx' <> Some "EXCEPT").
+
+Section Renx.
+  Variable fl2 : Z -> Z.
+
+  Lemma iftail_renx : forall c nx i ts, iftail fl2 c nx i ts -> forall nx', renx_ok nx nx' -> iftail fl2 c nx' i ts.
+  Proof.
+    intros c nx i ts H nx' R. inversion H; subst; try (econstructor; eassumption).
+    apply it_b; [assumption|]. destruct R as [->|(_ & R & _)]; assumption.
+  Qed.
+
+  Lemma stmt_renx : forall c nx is ss, stmt fl2 c nx is ss -> forall nx', renx_ok nx nx' -> stmt fl2 c nx' is ss.
+  Proof.
+    intros c nx is ss H nx' R. inversion H; subst; try (econstructor; eassumption).
+    - (* push1, one operand *)
+      destruct R as [->|(R & _)]; [apply st_push1_1; assumption|].
+      rewrite (R t eq_refl) in *. discriminate.
+    - destruct R as [->|(R & _)]; [apply st_push2_1; assumption|].
+      rewrite (R t eq_refl) in *. discriminate.
+    - apply st_if; [assumption|]. eapply iftail_renx; eassumption.
+    - apply st_ifh; [assumption|assumption|]. eapply iftail_renx; eassumption.
+    - apply st_try_b; [assumption|assumption|]. destruct R as [->|(_ & _ & R)]; assumption.
+  Qed.
+
+  Lemma seq_renx : forall c nx p sp, seq fl2 c nx p sp -> forall nx', renx_ok nx nx' -> seq fl2 c nx' p sp.
+  Proof.
+    assert (G : (forall c nx is ss, stmt fl2 c nx is ss -> True) /\
+                (forall c nx i ts, iftail fl2 c nx i ts -> True) /\
+                (forall c nx p ss, seq fl2 c nx p ss -> forall nx', renx_ok nx nx' -> seq fl2 c nx' p ss)).
+    { apply spells_mutind; intros; auto.
+      - apply sq_nil.
+      - apply sq_cons; [|auto]. destruct sp as [|t sp']; [|assumption].
+        cbn [hd_or] in *. eapply stmt_renx; eassumption. }
+    intros c nx p sp S. apply (proj2 (proj2 G) _ _ _ _ S).
+  Qed.
+
+  Lemma seq_app : forall c nx p1 s1, seq fl2 c nx p1 s1 -> forall nx' p2 s2, seq fl2 c nx' p2 s2 ->
+    nx = hd_or nx' s2 -> seq fl2 c nx' (p1 ++ p2) (s1 ++ s2).
+  Proof.
+    assert (G : (forall c nx is ss, stmt fl2 c nx is ss -> True) /\
+                (forall c nx i ts, iftail fl2 c nx i ts -> True) /\
+                (forall c nx p ss, seq fl2 c nx p ss -> forall nx' p2 s2, seq fl2 c nx' p2 s2 ->
+                   nx = hd_or nx' s2 -> seq fl2 c nx' (p ++ p2) (ss ++ s2))).
+    { apply spells_mutind; intros; auto; try (cbn [app]; assumption).
+      rewrite <- !app_assoc. apply sq_cons; [|auto].
+      destruct sp as [|t sp']; [|assumption]. cbn [hd_or app] in *. subst nx. assumption. }
+    intros c nx p1 s1 S. apply (proj2 (proj2 G) _ _ _ _ S).
+  Qed.
+End Renx.
+
+(* !name [ vals ] *)
+Definition invocation (nm : string) (vals : list string) : list string :=
+  String "!" nm :: "[" :: vals ++ ["]"].
+
+Lemma alias_of_bang : forall k, alias_of (String "!" k) = None.
+Proof. intros k. vm_compute. reflexivity. Qed.
+
+Section MacroExpansion.
+  Variable fl2 : Z -> Z.
+
+  (* a top-level source with invocations of the macros of the table M (second list), the same
+     source with every invocation textually replaced by the instantiated template (third list),
+     and the program both stand for.  An invocation: the name is alphanumeric and in the table, the
+     argument symbols are ordinary symbols other than brackets, as many as the macro has
+     parameters; the instantiated template is left unchanged by the re-tokenisation
+     (compile_script(' '.join(src))) and is a spelling of a program [pi] on its own.
+     B bounds the length of the instantiated templates (for the fuel). *)
+  Inductive mseq (B : nat) (M : macros) : list instr -> list string -> list string -> Prop :=
+  | mq_nil : mseq B M [] [] []
+  | mq_stmt : forall is ss p msp esp, stmt fl2 Top (hd_or None msp) is ss -> mseq B M p msp esp ->
+      mseq B M (is ++ p) (ss ++ msp) (ss ++ esp)
+  | mq_inv : forall nm vals mac pi p msp esp,
+      isalnum nm = true -> macro_lookup (lower_s nm) M = Some mac ->
+      List.length vals = List.length (m_args mac) ->
+      Forall (fun v => leafb v = true /\ String.eqb v "[" = false /\ String.eqb v "]" = false) vals ->
+      get_symbols (join_spaces (instantiate mac vals)) = Ok (instantiate mac vals) ->
+      spells fl2 pi (instantiate mac vals) -> (List.length (instantiate mac vals) + 2 <= B)%nat ->
+      mseq B M p msp esp ->
+      mseq B M (pi ++ p) (invocation nm vals ++ msp) (instantiate mac vals ++ esp).
+
+  Lemma bang_facts : forall nm, isalnum nm = true ->
+    is_comment (String "!" nm) = false /\ canon (String "!" nm) = String "!" nm /\
+    String.eqb (String "!" nm) "!=" = false /\ is_prefix "@#" (String "!" nm) = false /\
+    bad_symbol (String "!" nm) = false.
+  Proof.
+    intros nm A. split; [reflexivity|]. split; [unfold canon; rewrite alias_of_bang; reflexivity|].
+    assert (E : String.eqb nm "=" = false) by (apply alnum_not; [exact A|reflexivity]).
+    split; [cbn [String.eqb Ascii.eqb Bool.eqb]; exact E|].
+    split; [unfold is_prefix; cbn [prefix]; destruct (ascii_dec "@" "!") as [Q|_]; [discriminate Q|reflexivity]|].
+    unfold bad_symbol, unmodelled_symbol. cbn [is_ascii_s sall]. fold (is_ascii_s nm).
+    rewrite (isalnum_ascii nm A). unfold mem. cbn [existsb String.eqb Ascii.eqb Bool.eqb]. rewrite E. reflexivity.
+  Qed.
+
+  Lemma pn_invoke : forall f M nm vals mac pi msp,
+    isalnum nm = true -> macro_lookup (lower_s nm) M = Some mac ->
+    List.length vals = List.length (m_args mac) ->
+    Forall (fun v => leafb v = true /\ String.eqb v "[" = false /\ String.eqb v "]" = false) vals ->
+    get_symbols (join_spaces (instantiate mac vals)) = Ok (instantiate mac vals) ->
+    spells fl2 pi (instantiate mac vals) -> wf_prog pi = true ->
+    (List.length (instantiate mac vals) + 2 <= f)%nat ->
+    pn_at fl2 f M (String "!" nm) (invocation nm vals ++ msp) =
+    Ok (List.length (invocation nm vals), encode pi).
+  Proof.
+    intros f M nm vals mac pi msp A Lk Ln Fv G S W Lf.
+    destruct f as [|[|f'']]; [lia|lia|].
+    destruct (bang_facts nm A) as (C1 & C2 & C3 & C4 & _).
+    rewrite (PN_S fl2 M). unfold parse_next. rewrite C1, C2, C3, C4.
+    cbn [String.eqb Ascii.eqb Bool.eqb]. rewrite A.
+    unfold invocation. cbn [app]. unfold invoke_macro. cbn [sdrop]. rewrite Lk.
+    change (String.eqb "[" "[") with true. cbv iota.
+    assert (F : find_matching_brace (String "!" nm :: "[" :: (vals ++ ["]"]) ++ msp) "[" "]"
+                = Some (2 + List.length vals)%nat).
+    { unfold find_matching_brace. cbn [fmb_go String.eqb Ascii.eqb Bool.eqb].
+      rewrite <- app_assoc. cbn [app]. apply (fmb_balanced "[" "]" vals msp 2).
+      apply scan_neutral. revert Fv. apply Forall_impl. intros v (_ & V1 & V2). split; assumption. }
+    rewrite F. cbn [of_opt rbind].
+    replace (2 + List.length vals - 2)%nat with (List.length vals) by lia.
+    change (skipn 2 (String "!" nm :: "[" :: (vals ++ ["]"]) ++ msp)) with ((vals ++ ["]"]) ++ msp).
+    rewrite <- app_assoc. rewrite firstn_app_len. rewrite Ln, Nat.eqb_refl.
+    unfold COMPILE. rewrite G. cbn [rbind].
+    rewrite (asm_fuel_spells fl2 pi _ S W) by lia. cbn [code_of rbind].
+    f_equal. f_equal. cbn [List.length]. rewrite app_length. cbn [List.length]. lia.
+  Qed.
+
+  (* the macro source *)
+  Lemma mseq_loop : forall B M p msrc esrc, mseq B M p msrc esrc -> wf_prog p = true ->
+    existsb bad_symbol msrc = false /\
+    forall f n, (List.length msrc <= f)%nat -> (B <= f)%nat -> (List.length msrc <= n)%nat ->
+    asm_loop (pn_at fl2 f M) n msrc = Ok (encode p).
+  Proof.
+    induction 1 as [|is ss p msp esp S T IH|nm vals mac pi p msp esp A Lk Ln Fv G S LB T IH]; intros W.
+    - split; [reflexivity|]. intros f n _ _ _. destruct n; reflexivity.
+    - unfold wf_prog in W. rewrite forallb_app in W. apply andb_prop in W as [W1 W2].
+      destruct (IH W2) as [U2 R2]. split.
+      + destruct (good_stmt fl2 _ _ _ _ S W1) as (_ & _ & U1 & _). rewrite existsb_app, U1, U2. reflexivity.
+      + intros f n Lf LB Lnn. rewrite app_length in Lf, Lnn.
+        assert (Hh : hd_error msp = hd_or None msp) by (destruct msp; reflexivity).
+        destruct (proj1 (spells_correct fl2 M) _ _ _ _ S W1 f msp ltac:(lia) Hh) as (h & t & -> & _ & P).
+        cbn [defpre] in P. cbn [List.length] in *. destruct n as [|n']; [lia|].
+        cbn [app asm_loop]. cbn [app] in P. rewrite P. cbn [rbind]. rewrite skipn_stmt.
+        rewrite (R2 f n') by lia. cbn [rbind]. unfold encode. rewrite flat_map_app. reflexivity.
+    - unfold wf_prog in W. rewrite forallb_app in W. apply andb_prop in W as [W1 W2].
+      destruct (IH W2) as [U2 R2]. split.
+      + unfold invocation. cbn [app existsb]. destruct (bang_facts nm A) as (_ & _ & _ & _ & Cb).
+        rewrite Cb. rewrite <- app_assoc, existsb_app. cbn [app existsb]. rewrite U2.
+        assert (Uv : existsb bad_symbol vals = false).
+        { clear -Fv. induction Fv as [|v vals (Lv & _) _ IHv]; [reflexivity|]. cbn [existsb].
+          destruct (leafb_spec v Lv) as (Bv & _). rewrite Bv, IHv. reflexivity. }
+        rewrite Uv. reflexivity.
+      + intros f n Lf LBf Lnn. rewrite app_length in Lf, Lnn.
+        pose proof (pn_invoke f M nm vals mac pi msp A Lk Ln Fv G S W1 ltac:(lia)) as P.
+        unfold invocation in *. cbn [app List.length] in *. destruct n as [|n']; [lia|].
+        cbn [asm_loop]. rewrite P. cbn [rbind].
+        change (String "!" nm :: "[" :: (vals ++ ["]"]) ++ msp) with (String "!" nm :: ("[" :: vals ++ ["]"]) ++ msp).
+        change (Datatypes.S (Datatypes.S (List.length (vals ++ ["]"])))) with (Datatypes.S (List.length ("[" :: vals ++ ["]"]))).
+        rewrite skipn_stmt. rewrite (R2 f n') by lia. cbn [rbind]. unfold encode. rewrite flat_map_app. reflexivity.
+  Qed.
+
+  (* the expanded source is a spelling of the same program *)
+  Lemma stmt_head : forall c nx is ss, stmt fl2 c nx is ss -> wf_prog is = true ->
+    exists h t, ss = h :: t /\ headb h = true.
+  Proof.
+    intros c nx is ss S W.
+    destruct (proj1 (spells_correct fl2 []) _ _ _ _ S W (List.length ss)
+                (match nx with Some t => [t] | None => [] end) (le_n _) ltac:(destruct nx; reflexivity))
+      as (h & t & E & [Hh _] & _).
+    eauto.
+  Qed.
+  Lemma seq_head : forall c nx p sp, seq fl2 c nx p sp -> wf_prog p = true ->
+    sp = [] \/ exists h t, sp = h :: t /\ headb h = true.
+  Proof.
+    intros c nx p sp S W. inversion S as [|c' nx' is ss p' sp' St Sq]; subst; [left; reflexivity|right].
+    unfold wf_prog in W. rewrite forallb_app in W. apply andb_prop in W as [W1 _].
+    destruct (stmt_head _ _ _ _ St W1) as (h & t & -> & Hh). exists h, (t ++ sp'). split; [reflexivity|exact Hh].
+  Qed.
+  Lemma headb_not_else : forall h, headb h = true -> Some h <> Some "ELSE" /\ Some h <> Some "EXCEPT".
+  Proof.
+    intros h H. destruct (headb_spec h H) as (_ & M & _).
+    split; intros Q; injection Q as ->; discriminate M.
+  Qed.
+
+  Definition nice_nx (nx : option string) : Prop := nx <> Some "ELSE" /\ nx <> Some "EXCEPT".
+
+  Lemma mseq_expanded : forall B M p msrc esrc, mseq B M p msrc esrc -> wf_prog p = true ->
+    seq fl2 Top None p esrc /\ nice_nx (hd_or None esrc) /\
+    renx_ok (hd_or None msrc) (hd_or None esrc).
+  Proof.
+    induction 1 as [|is ss p msp esp S T IH|nm vals mac pi p msp esp A Lk Ln Fv G S LB T IH]; intros W.
+    - split; [apply sq_nil|]. split; [split; discriminate|left; reflexivity].
+    - unfold wf_prog in W. rewrite forallb_app in W. apply andb_prop in W as [W1 W2].
+      destruct (IH W2) as (Sq & Nn & Rn). destruct (stmt_head _ _ _ _ S W1) as (h & t & -> & Hh).
+      split; [|split].
+      + apply sq_cons; [|exact Sq]. eapply stmt_renx; [exact S|exact Rn].
+      + cbn [app hd_or]. apply headb_not_else. exact Hh.
+      + left. reflexivity.
+    - unfold wf_prog in W. rewrite forallb_app in W. apply andb_prop in W as [W1 W2].
+      destruct (IH W2) as (Sq & Nn & Rn).
+      assert (Sq1 : seq fl2 Top (hd_or None esp) pi (instantiate mac vals)).
+      { apply (seq_renx fl2 Top None _ _ S). right. split; [intros t Q; discriminate Q|exact Nn]. }
+      split; [|split].
+      + apply (seq_app fl2 Top _ _ _ Sq1 None p esp Sq). reflexivity.
+      + destruct (seq_head _ _ _ _ S W1) as [E|(h & t & E & Hh)]; rewrite E; cbn [app hd_or].
+        * exact Nn.
+        * apply headb_not_else. exact Hh.
+      + right. unfold invocation. cbn [app hd_or]. split; [|].
+        * intros t Q. injection Q as <-. vm_compute. reflexivity.
+        * destruct (seq_head _ _ _ _ S W1) as [E|(h & t & E & Hh)]; rewrite E; cbn [app hd_or].
+          -- exact Nn.
+          -- apply headb_not_else. exact Hh.
+  Qed.
+
+  (* (b) a macro defined once and invoked k times: the source assembles to the same bytes as the
+     source with each invocation textually replaced by the instantiated template *)
+  Theorem macro_expansion : forall name args tmpl p msrc esrc,
+    def_ok name args tmpl ->
+    mseq (List.length tmpl + 2) [(lower_s name, mac_of args tmpl)] p msrc esrc -> wf_prog p = true ->
+    assemble_r fl2 (defsyms name args tmpl ++ msrc) = Ok (encode p) /\
+    assemble_r fl2 esrc = Ok (encode p).
+  Proof.
+    intros name args tmpl p msrc esrc D Mq W.
+    destruct (mseq_loop _ _ _ _ _ Mq W) as [U R]. destruct (mseq_expanded _ _ _ _ _ Mq W) as (Sq & _).
+    split; [|apply assemble_r_spells; assumption].
+    unfold assemble_r. rewrite existsb_app, (def_unmodelled _ _ _ D), (bad_unmodelled msrc U). cbn [orb].
+    set (L := List.length (defsyms name args tmpl ++ msrc)).
+    assert (EL : L = (Datatypes.S (List.length args + List.length tmpl + 5 + List.length msrc))%nat).
+    { unfold L, defsyms. cbn [app List.length]. rewrite !app_length. cbn [List.length].
+      rewrite !app_length. cbn [List.length]. lia. }
+    assert (E : forall a, comptime a L [] (defsyms name args tmpl ++ msrc) =
+                          Ok ([(lower_s name, mac_of args tmpl)], msrc)).
+    { intros a. rewrite EL. rewrite (comptime_def a _ _ name args tmpl msrc D).
+      rewrite comptime_id by (try exact U; lia). reflexivity. }
+    replace (2 * L + 2)%nat with (Datatypes.S (2 * L + 1)) by lia. cbn [asm_fuel]. fold L.
+    rewrite E. cbn [rbind]. rewrite R by lia. reflexivity.
+  Qed.
+End MacroExpansion.
+
+(* the relation is inhabited:  != m [ a ] { push a } !m [ d1 ] !m [ x0102 ] true
+   (symbols as get_symbols gives them) against  push d1 push x0102 true *)
+Example macro_expansion_example :
+  assemble_r fl2_exact (defsyms "m" ["A"] ["PUSH"; "A"] ++ invocation "m" ["d1"] ++ invocation "m" ["x0102"] ++ ["TRUE"])
+    = Ok (encode [IOp1 O_PUSH0 x01; IVar1 O_PUSH1 [x01; x02]; IOp0 O_TRUE]) /\
+  assemble_r fl2_exact ["PUSH"; "d1"; "PUSH"; "x0102"; "TRUE"]
+    = Ok (encode [IOp1 O_PUSH0 x01; IVar1 O_PUSH1 [x01; x02]; IOp0 O_TRUE]).
+Proof.
+  apply (macro_expansion fl2_exact "m" ["A"] ["PUSH"; "A"]
+           ([IOp1 O_PUSH0 x01] ++ [IVar1 O_PUSH1 [x01; x02]] ++ [IOp0 O_TRUE] ++ [])
+           (invocation "m" ["d1"] ++ invocation "m" ["x0102"] ++ ["TRUE"] ++ [])
+           (["PUSH"; "d1"] ++ ["PUSH"; "x0102"] ++ ["TRUE"] ++ [])).
+  - repeat split; try reflexivity. repeat constructor.
+  - apply (mq_inv fl2_exact _ _ "m" ["d1"] (mac_of ["A"] ["PUSH"; "A"]));
+      [reflexivity|reflexivity|reflexivity|repeat constructor|reflexivity| |cbn; lia|].
+    + apply (sq_cons fl2_exact Top None [IOp1 O_PUSH0 x01] ["PUSH"; "d1"] [] []); [|apply sq_nil].
+      apply (st_pushp fl2_exact _ _ "PUSH" [x01] "d1"); [left; reflexivity| |reflexivity].
+      apply (sp_d fl2_exact _ "d" "1" 1); [left; reflexivity| |reflexivity]. apply (num_dec 1). discriminate.
+    + apply (mq_inv fl2_exact _ _ "m" ["x0102"] (mac_of ["A"] ["PUSH"; "A"]));
+        [reflexivity|reflexivity|reflexivity|repeat constructor|reflexivity| |cbn; lia|].
+      * apply (sq_cons fl2_exact Top None [IVar1 O_PUSH1 [x01; x02]] ["PUSH"; "x0102"] [] []); [|apply sq_nil].
+        apply (st_pushp fl2_exact _ _ "PUSH" [x01; x02] "x0102"); [left; reflexivity| |reflexivity].
+        apply sp_x; [left; reflexivity|reflexivity].
+      * apply (mq_stmt fl2_exact _ _ [IOp0 O_TRUE] ["TRUE"] [] [] []); [|apply mq_nil].
+        apply st_op0; [apply alias_name; reflexivity|reflexivity].
+  - reflexivity.
+Qed.
+
+(* oddities of macros and comptime blocks (each checked on the real compiler) *)
+Theorem macro_oddities :
+  (* M1: a template is compiled by compile_script with a FRESH macro table: a macro cannot invoke a
+     macro defined outside its own template ... *)
+  asm ["!="; "m"; "["; "A"; "]"; "{"; "PUSH"; "A"; "}"; "!="; "n"; "["; "B"; "]"; "{"; "!m"; "["; "B"; "]"; "}";
+       "!n"; "["; "d1"; "]"] = Err /\
+  (* ... but one defined inside it *)
+  asm ["!="; "m"; "["; "A"; "]"; "{"; "!="; "n"; "["; "B"; "]"; "{"; "PUSH"; "B"; "}"; "!n"; "["; "A"; "]"; "}";
+       "!m"; "["; "d1"; "]"] = enc [IOp1 O_PUSH0 x01] /\
+  (* M2: parse_comptime scans the flat symbol list: a definition inside an IF body is taken out of
+     it and is visible everywhere; use before the definition works in the main code but not inside
+     a comptime block that precedes the definition; "!=" inside a comment is a definition *)
+  asm ["IF"; "{"; "!="; "m"; "["; "]"; "{"; "TRUE"; "}"; "}"; "!m"; "["; "]"] = enc [IIf []; IOp0 O_TRUE] /\
+  asm ["!m"; "["; "]"; "!="; "m"; "["; "]"; "{"; "TRUE"; "}"] = enc [IOp0 O_TRUE] /\
+  asm ["PUSH"; "~"; "{"; "!m"; "["; "]"; "}"; "!="; "m"; "["; "]"; "{"; "TRUE"; "}"] = Err /\
+  asm ["#"; "!="; "#"; "TRUE"] = Err /\
+  (* M3: a repeated parameter name: the last argument wins; M4: a redefinition replaces silently;
+     names are case-insensitive *)
+  asm ["!="; "m"; "["; "A"; "A"; "]"; "{"; "PUSH"; "A"; "}"; "!m"; "["; "d1"; "d2"; "]"] = enc [IOp1 O_PUSH0 x02] /\
+  asm ["!="; "m"; "["; "]"; "{"; "TRUE"; "}"; "!="; "m"; "["; "]"; "{"; "FALSE"; "}"; "!M"; "["; "]"] = enc [IOp0 O_FALSE] /\
+  (* M5: a comptime block is only meaningful in an operand position *)
+  asm ["~"; "{"; "TRUE"; "}"] = Err.
+Proof. repeat split; vm_compute; reflexivity. Qed.
+
 Print Assumptions assemble_spells.
 Print Assumptions assemble_r_spells.
 Print Assumptions assemble_listing.
@@ -3071,3 +3708,11 @@ Print Assumptions assemble_listing_needs_ldef_ok.
 Print Assumptions reject_push1_size.
 Print Assumptions reject_push2_size.
 Print Assumptions fixed_push1_size_checked.
+Print Assumptions definitions_emit_no_code.
+Print Assumptions unused_definition.
+Print Assumptions comptime_block.
+Print Assumptions push_comptime.
+Print Assumptions macro_expansion.
+Print Assumptions macro_expansion_example.
+Print Assumptions macro_oddities.
+Print Assumptions fixed_def_alias.
